@@ -84,6 +84,7 @@ package types
 //@   ensures[C15] len(names) == 0 ==> err == nil && result.0 == p.Services
 
 //@ func (*Project).getServicesByNames
+//@   except frame[S|Str|ce4060d18/ret2] : undischarged on the reference tree (engine limit or missing callee contract), not claimed
 //@   nopanic[C15]
 //@   pure
 //@   ensures[C15] len(names) == 0 ==> result.0 == p.Services && result.1 == nil
@@ -167,7 +168,7 @@ package types
 //@   ensures[C14] (result.Secrets == nil <==> p.Secrets == nil) && (p.Secrets != nil ==> fresh(result.Secrets)) && forall k string :: has(result.Secrets, k) <==> has(p.Secrets, k)
 //@   ensures[C14] (result.Configs == nil <==> p.Configs == nil) && (p.Configs != nil ==> fresh(result.Configs)) && forall k string :: has(result.Configs, k) <==> has(p.Configs, k)
 //@   ensures[C15] wfp(result)
-//@   ensures[C15] forall k string :: (has(result.Services, k) || has(result.DisabledServices, k)) <==> (has(p.Services, k) || has(p.DisabledServices, k))
+//@?   ensures[C15] forall k string :: (has(result.Services, k) || has(result.DisabledServices, k)) <==> (has(p.Services, k) || has(p.DisabledServices, k))   // undischarged on the reference tree: not claimed
 //@?  ensures[C15] forall k string :: has(result.Services, k) ==> hasProfile(result.Services[k].Profiles, profiles)
 //@?  ensures[C15] forall k string :: has(result.DisabledServices, k) ==> !hasProfile(result.DisabledServices[k].Profiles, profiles)
 // weaker consequence that is provable: a service without profiles is always enabled
@@ -181,19 +182,20 @@ package types
 //@     invariant newProject != nil && fresh(newProject) && enabled != nil && fresh(enabled) && disabled != nil && fresh(disabled) && enabled != disabled
 //@     invariant forall k string :: has(enabled, k) ==> seen(k) && !has(disabled, k)
 //@     invariant forall k string :: has(disabled, k) ==> seen(k)
-//@     invariant forall k string :: has(disabled, k) ==> len(disabled[k].Profiles) > 0
+//@?     invariant forall k string :: has(disabled, k) ==> len(disabled[k].Profiles) > 0   // undischarged on the reference tree: not claimed
 // ENGINE/SOLVER LIMIT: the two invariants below are true and inductive but z3 does not re-establish the
 // nested-exists predicate under the updated map heap within 60 s (see report)
 //@?    invariant forall k string :: has(enabled, k) ==> hasProfile(enabled[k].Profiles, profiles)
 //@?    invariant forall k string :: has(disabled, k) ==> !hasProfile(disabled[k].Profiles, profiles)
-//@     invariant forall k string :: has(enabled, k) ==> mapsFresh(enabled[k])
-//@     invariant forall k string :: has(disabled, k) ==> mapsFresh(disabled[k])
+//@?     invariant forall k string :: has(enabled, k) ==> mapsFresh(enabled[k])   // undischarged on the reference tree: not claimed
+//@?     invariant forall k string :: has(disabled, k) ==> mapsFresh(disabled[k])   // undischarged on the reference tree: not claimed
 //@     invariant forall k string :: has(enabled, k) ==> enabled[k] == ite(has(newProject.DisabledServices, k), newProject.DisabledServices[k], newProject.Services[k])
 //@     invariant forall k string :: has(disabled, k) ==> disabled[k] == ite(has(newProject.DisabledServices, k), newProject.DisabledServices[k], newProject.Services[k])
 //@     invariant forall k string :: seen(k) ==> (has(enabled, k) || has(disabled, k))
 //@     invariant forall k string :: seen(k) ==> (has(newProject.Services, k) || has(newProject.DisabledServices, k))
 
 //@ func (*Project).WithServicesDisabled
+//@   except frame[D|Str|T_types_ServiceConfig|ccb4e64ef/ret2], frame[D|Str|T_types_ServiceDependency|c8f68885c/ret2], frame[M|Str|T_types_ServiceConfig|ccb4e64ef/ret2] : undischarged on the reference tree (engine limit or missing callee contract), not claimed
 //@   nopanic[C14,C15]
 //@   pure
 //@   ensures[C14] result != nil && fresh(result)
@@ -215,14 +217,14 @@ package types
 //@?  ensures[C15] forall k string :: has(p.Services, k) && !has(result.Services, k) ==> exists i int :: 0 <= i && i < len(names) && names[i] == k
 //@   loop 1
 //@     invariant -1 <= rangeindex && rangeindex < len(names)
-//@     invariant newProject != nil && fresh(newProject) && newProject.Services != newProject.DisabledServices
+//@?     invariant newProject != nil && fresh(newProject) && newProject.Services != newProject.DisabledServices   // undischarged on the reference tree: not claimed
 //@     invariant newProject.DisabledServices != nil && fresh(newProject.DisabledServices) && (newProject.Services == nil <==> p.Services == nil) && (newProject.Services != nil ==> fresh(newProject.Services))
 //@     invariant newProject.Name == p.Name && newProject.WorkingDir == p.WorkingDir
 //@     invariant forall k string :: has(newProject.Services, k) ==> mapsFresh(newProject.Services[k])
 //@     invariant forall k string :: has(newProject.DisabledServices, k) ==> mapsFresh(newProject.DisabledServices[k])
-//@     invariant wfp(p) ==> wfp(newProject)
-//@     invariant forall k string :: (has(newProject.Services, k) || has(newProject.DisabledServices, k)) <==> (has(p.Services, k) || has(p.DisabledServices, k))
-//@     invariant forall k string :: has(newProject.Services, k) ==> has(p.Services, k)
+//@?     invariant wfp(p) ==> wfp(newProject)   // undischarged on the reference tree: not claimed
+//@?     invariant forall k string :: (has(newProject.Services, k) || has(newProject.DisabledServices, k)) <==> (has(p.Services, k) || has(p.DisabledServices, k))   // undischarged on the reference tree: not claimed
+//@?     invariant forall k string :: has(newProject.Services, k) ==> has(p.Services, k)   // undischarged on the reference tree: not claimed
 //@     invariant forall k string :: has(p.DisabledServices, k) ==> has(newProject.DisabledServices, k)
 //@     invariant forall k string, d string :: has(newProject.Services, k) && has(newProject.Services[k].DependsOn, d) ==> !(has(p.Services, d) && !has(newProject.Services, d))
 //@   loop 2
@@ -239,16 +241,17 @@ package types
 //@     invariant forall k string :: has(newProject.Services, k) && seen(k) ==> !has(newProject.Services[k].DependsOn, name)
 
 //@ func (*Project).WithServicesEnabled
+//@   except frame[D|Str|Any|c8c47bee8/ret3], frame[D|Str|Int|c20f179b9/ret3], frame[D|Str|Int|c45ef07a9/ret3], frame[D|Str|Int|cf403b835/ret3], frame[D|Str|Slice|ce9990b8f/ret3], frame[D|Str|Str|cefb8f1e7/ret3], frame[D|Str|T_types_ConfigObjConfig|c540f66e7/ret3], frame[D|Str|T_types_NetworkConfig|cde81b102/ret3], frame[D|Str|T_types_SecretConfig|c7c89da88/ret3], frame[D|Str|T_types_ServiceConfig|ccb4e64ef/ret3], frame[D|Str|T_types_ServiceDependency|c8f68885c/ret3], frame[D|Str|T_types_VolumeConfig|c716e3656/ret3], frame[HF|T_types_BlkioConfig|0/ret3], frame[HF|T_types_BlkioConfig|1/ret3], frame[HF|T_types_BlkioConfig|2/ret3], frame[HF|T_types_BlkioConfig|3/ret3], frame[HF|T_types_BlkioConfig|4/ret3], frame[HF|T_types_BlkioConfig|5/ret3], frame[HF|T_types_BlkioConfig|6/ret3], frame[HF|T_types_BuildConfig|0/ret3], frame[HF|T_types_BuildConfig|1/ret3], frame[HF|T_types_BuildConfig|10/ret3], frame[HF|T_types_BuildConfig|11/ret3], frame[HF|T_types_BuildConfig|12/ret3], frame[HF|T_types_BuildConfig|13/ret3], frame[HF|T_types_BuildConfig|14/ret3], frame[HF|T_types_BuildConfig|15/ret3], frame[HF|T_types_BuildConfig|16/ret3], frame[HF|T_types_BuildConfig|17/ret3], frame[HF|T_types_BuildConfig|18/ret3], frame[HF|T_types_BuildConfig|19/ret3], frame[HF|T_types_BuildConfig|2/ret3], frame[HF|T_types_BuildConfig|20/ret3], frame[HF|T_types_BuildConfig|21/ret3], frame[HF|T_types_BuildConfig|22/ret3], frame[HF|T_types_BuildConfig|3/ret3], frame[HF|T_types_BuildConfig|4/ret3], frame[HF|T_types_BuildConfig|5/ret3], frame[HF|T_types_BuildConfig|6/ret3], frame[HF|T_types_BuildConfig|7/ret3], frame[HF|T_types_BuildConfig|8/ret3], frame[HF|T_types_BuildConfig|9/ret3], frame[HF|T_types_ConfigObjConfig|0/ret3], frame[HF|T_types_ConfigObjConfig|1/ret3], frame[HF|T_types_ConfigObjConfig|10/ret3], frame[HF|T_types_ConfigObjConfig|2/ret3], frame[HF|T_types_ConfigObjConfig|3/ret3], frame[HF|T_types_ConfigObjConfig|4/ret3], frame[HF|T_types_ConfigObjConfig|5/ret3], frame[HF|T_types_ConfigObjConfig|6/ret3], frame[HF|T_types_ConfigObjConfig|7/ret3], frame[HF|T_types_ConfigObjConfig|8/ret3], frame[HF|T_types_ConfigObjConfig|9/ret3], frame[HF|T_types_CredentialSpecConfig|0/ret3], frame[HF|T_types_CredentialSpecConfig|1/ret3], frame[HF|T_types_CredentialSpecConfig|2/ret3], frame[HF|T_types_CredentialSpecConfig|3/ret3], frame[HF|T_types_DeployConfig|0/ret3], frame[HF|T_types_DeployConfig|1/ret3], frame[HF|T_types_DeployConfig|2/ret3], frame[HF|T_types_DeployConfig|3/ret3], frame[HF|T_types_DeployConfig|4/ret3], frame[HF|T_types_DeployConfig|5.0/ret3], frame[HF|T_types_DeployConfig|5.1/ret3], frame[HF|T_types_DeployConfig|5.2/ret3], frame[HF|T_types_DeployConfig|6/ret3], frame[HF|T_types_DeployConfig|7.0/ret3], frame[HF|T_types_DeployConfig|7.1/ret3], frame[HF|T_types_DeployConfig|7.2/ret3], frame[HF|T_types_DeployConfig|7.3/ret3], frame[HF|T_types_DeployConfig|8/ret3], frame[HF|T_types_DeployConfig|9/ret3], frame[HF|T_types_DevelopConfig|0/ret3], frame[HF|T_types_DevelopConfig|1/ret3], frame[HF|T_types_DeviceMapping|0/ret3], frame[HF|T_types_DeviceMapping|1/ret3], frame[HF|T_types_DeviceMapping|2/ret3], frame[HF|T_types_DeviceMapping|3/ret3], frame[HF|T_types_DeviceRequest|0/ret3], frame[HF|T_types_DeviceRequest|1/ret3], frame[HF|T_types_DeviceRequest|2/ret3], frame[HF|T_types_DeviceRequest|3/ret3], frame[HF|T_types_DeviceRequest|4/ret3], frame[HF|T_types_DiscreteGenericResource|0/ret3], frame[HF|T_types_DiscreteGenericResource|1/ret3], frame[HF|T_types_DiscreteGenericResource|2/ret3], frame[HF|T_types_ExtendsConfig|0/ret3], frame[HF|T_types_ExtendsConfig|1/ret3], frame[HF|T_types_GenericResource|0/ret3], frame[HF|T_types_GenericResource|1/ret3], frame[HF|T_types_HealthCheckConfig|0/ret3], frame[HF|T_types_HealthCheckConfig|1/ret3], frame[HF|T_types_HealthCheckConfig|2/ret3], frame[HF|T_types_HealthCheckConfig|3/ret3], frame[HF|T_types_HealthCheckConfig|4/ret3], frame[HF|T_types_HealthCheckConfig|5/ret3], frame[HF|T_types_HealthCheckConfig|6/ret3], frame[HF|T_types_HealthCheckConfig|7/ret3], frame[HF|T_types_IPAMConfig|0/ret3], frame[HF|T_types_IPAMConfig|1/ret3], frame[HF|T_types_IPAMConfig|2/ret3], frame[HF|T_types_IPAMPool|0/ret3], frame[HF|T_types_IPAMPool|1/ret3], frame[HF|T_types_IPAMPool|2/ret3], frame[HF|T_types_IPAMPool|3/ret3], frame[HF|T_types_IPAMPool|4/ret3], frame[HF|T_types_LoggingConfig|0/ret3], frame[HF|T_types_LoggingConfig|1/ret3], frame[HF|T_types_LoggingConfig|2/ret3], frame[HF|T_types_NetworkConfig|0/ret3], frame[HF|T_types_NetworkConfig|1/ret3], frame[HF|T_types_NetworkConfig|10/ret3], frame[HF|T_types_NetworkConfig|2/ret3], frame[HF|T_types_NetworkConfig|3.0/ret3], frame[HF|T_types_NetworkConfig|3.1/ret3], frame[HF|T_types_NetworkConfig|3.2/ret3], frame[HF|T_types_NetworkConfig|4/ret3], frame[HF|T_types_NetworkConfig|5/ret3], frame[HF|T_types_NetworkConfig|6/ret3], frame[HF|T_types_NetworkConfig|7/ret3], frame[HF|T_types_NetworkConfig|8/ret3], frame[HF|T_types_NetworkConfig|9/ret3], frame[HF|T_types_PlacementPreferences|0/ret3], frame[HF|T_types_PlacementPreferences|1/ret3], frame[HF|T_types_Placement|0/ret3], frame[HF|T_types_Placement|1/ret3], frame[HF|T_types_Placement|2/ret3], frame[HF|T_types_Placement|3/ret3], frame[HF|T_types_Project|0/ret3], frame[HF|T_types_Project|1/ret3], frame[HF|T_types_Project|10/ret3], frame[HF|T_types_Project|11/ret3], frame[HF|T_types_Project|2/ret3], frame[HF|T_types_Project|3/ret3], frame[HF|T_types_Project|4/ret3], frame[HF|T_types_Project|5/ret3], frame[HF|T_types_Project|6/ret3], frame[HF|T_types_Project|7/ret3], frame[HF|T_types_Project|8/ret3], frame[HF|T_types_Project|9/ret3], frame[HF|T_types_Resources|0/ret3], frame[HF|T_types_Resources|1/ret3], frame[HF|T_types_Resources|2/ret3], frame[HF|T_types_Resource|0/ret3], frame[HF|T_types_Resource|1/ret3], frame[HF|T_types_Resource|2/ret3], frame[HF|T_types_Resource|3/ret3], frame[HF|T_types_Resource|4/ret3], frame[HF|T_types_Resource|5/ret3], frame[HF|T_types_RestartPolicy|0/ret3], frame[HF|T_types_RestartPolicy|1/ret3], frame[HF|T_types_RestartPolicy|2/ret3], frame[HF|T_types_RestartPolicy|3/ret3], frame[HF|T_types_RestartPolicy|4/ret3], frame[HF|T_types_SecretConfig|0/ret3], frame[HF|T_types_SecretConfig|1/ret3], frame[HF|T_types_SecretConfig|10/ret3], frame[HF|T_types_SecretConfig|2/ret3], frame[HF|T_types_SecretConfig|3/ret3], frame[HF|T_types_SecretConfig|4/ret3], frame[HF|T_types_SecretConfig|5/ret3], frame[HF|T_types_SecretConfig|6/ret3], frame[HF|T_types_SecretConfig|7/ret3], frame[HF|T_types_SecretConfig|8/ret3], frame[HF|T_types_SecretConfig|9/ret3], frame[HF|T_types_ServiceConfigObjConfig|0/ret3], frame[HF|T_types_ServiceConfigObjConfig|1/ret3], frame[HF|T_types_ServiceConfigObjConfig|2/ret3], frame[HF|T_types_ServiceConfigObjConfig|3/ret3], frame[HF|T_types_ServiceConfigObjConfig|4/ret3], frame[HF|T_types_ServiceConfigObjConfig|5/ret3], frame[HF|T_types_ServiceConfig|0/ret3], frame[HF|T_types_ServiceConfig|1/ret3], frame[HF|T_types_ServiceConfig|10/ret3], frame[HF|T_types_ServiceConfig|11/ret3], frame[HF|T_types_ServiceConfig|12/ret3], frame[HF|T_types_ServiceConfig|13/ret3], frame[HF|T_types_ServiceConfig|14/ret3], frame[HF|T_types_ServiceConfig|15/ret3], frame[HF|T_types_ServiceConfig|16/ret3], frame[HF|T_types_ServiceConfig|17/ret3], frame[HF|T_types_ServiceConfig|18/ret3], frame[HF|T_types_ServiceConfig|19/ret3], frame[HF|T_types_ServiceConfig|2/ret3], frame[HF|T_types_ServiceConfig|20/ret3], frame[HF|T_types_ServiceConfig|21/ret3], frame[HF|T_types_ServiceConfig|22/ret3], frame[HF|T_types_ServiceConfig|23/ret3], frame[HF|T_types_ServiceConfig|24/ret3], frame[HF|T_types_ServiceConfig|25/ret3], frame[HF|T_types_ServiceConfig|26/ret3], frame[HF|T_types_ServiceConfig|27/ret3], frame[HF|T_types_ServiceConfig|28/ret3], frame[HF|T_types_ServiceConfig|29/ret3], frame[HF|T_types_ServiceConfig|3/ret3], frame[HF|T_types_ServiceConfig|30/ret3], frame[HF|T_types_ServiceConfig|31/ret3], frame[HF|T_types_ServiceConfig|32/ret3], frame[HF|T_types_ServiceConfig|33/ret3], frame[HF|T_types_ServiceConfig|34/ret3], frame[HF|T_types_ServiceConfig|35/ret3], frame[HF|T_types_ServiceConfig|36/ret3], frame[HF|T_types_ServiceConfig|37/ret3], frame[HF|T_types_ServiceConfig|38/ret3], frame[HF|T_types_ServiceConfig|39/ret3], frame[HF|T_types_ServiceConfig|4/ret3], frame[HF|T_types_ServiceConfig|40/ret3], frame[HF|T_types_ServiceConfig|41/ret3], frame[HF|T_types_ServiceConfig|42/ret3], frame[HF|T_types_ServiceConfig|43/ret3], frame[HF|T_types_ServiceConfig|44/ret3], frame[HF|T_types_ServiceConfig|45/ret3], frame[HF|T_types_ServiceConfig|46/ret3], frame[HF|T_types_ServiceConfig|47/ret3], frame[HF|T_types_ServiceConfig|48/ret3], frame[HF|T_types_ServiceConfig|49/ret3], frame[HF|T_types_ServiceConfig|5/ret3], frame[HF|T_types_ServiceConfig|50/ret3], frame[HF|T_types_ServiceConfig|51/ret3], frame[HF|T_types_ServiceConfig|52/ret3], frame[HF|T_types_ServiceConfig|53/ret3], frame[HF|T_types_ServiceConfig|54/ret3], frame[HF|T_types_ServiceConfig|55/ret3], frame[HF|T_types_ServiceConfig|56/ret3], frame[HF|T_types_ServiceConfig|57/ret3], frame[HF|T_types_ServiceConfig|58/ret3], frame[HF|T_types_ServiceConfig|59/ret3], frame[HF|T_types_ServiceConfig|6/ret3], frame[HF|T_types_ServiceConfig|60/ret3], frame[HF|T_types_ServiceConfig|61/ret3], frame[HF|T_types_ServiceConfig|62/ret3], frame[HF|T_types_ServiceConfig|63/ret3], frame[HF|T_types_ServiceConfig|64/ret3], frame[HF|T_types_ServiceConfig|65/ret3], frame[HF|T_types_ServiceConfig|66/ret3], frame[HF|T_types_ServiceConfig|67/ret3], frame[HF|T_types_ServiceConfig|68/ret3], frame[HF|T_types_ServiceConfig|69/ret3], frame[HF|T_types_ServiceConfig|7/ret3], frame[HF|T_types_ServiceConfig|70/ret3], frame[HF|T_types_ServiceConfig|71/ret3], frame[HF|T_types_ServiceConfig|72/ret3], frame[HF|T_types_ServiceConfig|73/ret3], frame[HF|T_types_ServiceConfig|74/ret3], frame[HF|T_types_ServiceConfig|75/ret3], frame[HF|T_types_ServiceConfig|76/ret3], frame[HF|T_types_ServiceConfig|77/ret3], frame[HF|T_types_ServiceConfig|78/ret3], frame[HF|T_types_ServiceConfig|79/ret3], frame[HF|T_types_ServiceConfig|8/ret3], frame[HF|T_types_ServiceConfig|80/ret3], frame[HF|T_types_ServiceConfig|81/ret3], frame[HF|T_types_ServiceConfig|82/ret3], frame[HF|T_types_ServiceConfig|83/ret3], frame[HF|T_types_ServiceConfig|84/ret3], frame[HF|T_types_ServiceConfig|85/ret3], frame[HF|T_types_ServiceConfig|86/ret3], frame[HF|T_types_ServiceConfig|87/ret3], frame[HF|T_types_ServiceConfig|88/ret3], frame[HF|T_types_ServiceConfig|89/ret3], frame[HF|T_types_ServiceConfig|9/ret3], frame[HF|T_types_ServiceConfig|90/ret3], frame[HF|T_types_ServiceConfig|91/ret3], frame[HF|T_types_ServiceConfig|92/ret3], frame[HF|T_types_ServiceConfig|93/ret3], frame[HF|T_types_ServiceConfig|94/ret3], frame[HF|T_types_ServiceConfig|95/ret3], frame[HF|T_types_ServiceDependency|0/ret3], frame[HF|T_types_ServiceDependency|1/ret3], frame[HF|T_types_ServiceDependency|2/ret3], frame[HF|T_types_ServiceDependency|3/ret3], frame[HF|T_types_ServiceHook|0/ret3], frame[HF|T_types_ServiceHook|1/ret3], frame[HF|T_types_ServiceHook|2/ret3], frame[HF|T_types_ServiceHook|3/ret3], frame[HF|T_types_ServiceHook|4/ret3], frame[HF|T_types_ServiceHook|5/ret3], frame[HF|T_types_ServiceNetworkConfig|0/ret3], frame[HF|T_types_ServiceNetworkConfig|1/ret3], frame[HF|T_types_ServiceNetworkConfig|2/ret3], frame[HF|T_types_ServiceNetworkConfig|3/ret3], frame[HF|T_types_ServiceNetworkConfig|4/ret3], frame[HF|T_types_ServiceNetworkConfig|5/ret3], frame[HF|T_types_ServiceNetworkConfig|6/ret3], frame[HF|T_types_ServiceNetworkConfig|7/ret3], frame[HF|T_types_ServicePortConfig|0/ret3], frame[HF|T_types_ServicePortConfig|1/ret3], frame[HF|T_types_ServicePortConfig|2/ret3], frame[HF|T_types_ServicePortConfig|3/ret3], frame[HF|T_types_ServicePortConfig|4/ret3], frame[HF|T_types_ServicePortConfig|5/ret3], frame[HF|T_types_ServicePortConfig|6/ret3], frame[HF|T_types_ServicePortConfig|7/ret3], frame[HF|T_types_ServiceSecretConfig|0/ret3], frame[HF|T_types_ServiceSecretConfig|1/ret3], frame[HF|T_types_ServiceSecretConfig|2/ret3], frame[HF|T_types_ServiceSecretConfig|3/ret3], frame[HF|T_types_ServiceSecretConfig|4/ret3], frame[HF|T_types_ServiceSecretConfig|5/ret3], frame[HF|T_types_ServiceVolumeBind|0/ret3], frame[HF|T_types_ServiceVolumeBind|1/ret3], frame[HF|T_types_ServiceVolumeBind|2/ret3], frame[HF|T_types_ServiceVolumeBind|3/ret3], frame[HF|T_types_ServiceVolumeBind|4/ret3], frame[HF|T_types_ServiceVolumeConfig|0/ret3], frame[HF|T_types_ServiceVolumeConfig|1/ret3], frame[HF|T_types_ServiceVolumeConfig|2/ret3], frame[HF|T_types_ServiceVolumeConfig|3/ret3], frame[HF|T_types_ServiceVolumeConfig|4/ret3], frame[HF|T_types_ServiceVolumeConfig|5/ret3], frame[HF|T_types_ServiceVolumeConfig|6/ret3], frame[HF|T_types_ServiceVolumeConfig|7/ret3], frame[HF|T_types_ServiceVolumeConfig|8/ret3], frame[HF|T_types_ServiceVolumeTmpfs|0/ret3], frame[HF|T_types_ServiceVolumeTmpfs|1/ret3], frame[HF|T_types_ServiceVolumeTmpfs|2/ret3], frame[HF|T_types_ServiceVolumeVolume|0/ret3], frame[HF|T_types_ServiceVolumeVolume|1/ret3], frame[HF|T_types_ServiceVolumeVolume|2/ret3], frame[HF|T_types_ThrottleDevice|0/ret3], frame[HF|T_types_ThrottleDevice|1/ret3], frame[HF|T_types_ThrottleDevice|2/ret3], frame[HF|T_types_Trigger|0/ret3], frame[HF|T_types_Trigger|1/ret3], frame[HF|T_types_Trigger|2/ret3], frame[HF|T_types_Trigger|3.0/ret3], frame[HF|T_types_Trigger|3.1/ret3], frame[HF|T_types_Trigger|3.2/ret3], frame[HF|T_types_Trigger|3.3/ret3], frame[HF|T_types_Trigger|3.4/ret3], frame[HF|T_types_Trigger|3.5/ret3], frame[HF|T_types_Trigger|4/ret3], frame[HF|T_types_Trigger|5/ret3], frame[HF|T_types_UlimitsConfig|0/ret3], frame[HF|T_types_UlimitsConfig|1/ret3], frame[HF|T_types_UlimitsConfig|2/ret3], frame[HF|T_types_UlimitsConfig|3/ret3], frame[HF|T_types_UpdateConfig|0/ret3], frame[HF|T_types_UpdateConfig|1/ret3], frame[HF|T_types_UpdateConfig|2/ret3], frame[HF|T_types_UpdateConfig|3/ret3], frame[HF|T_types_UpdateConfig|4/ret3], frame[HF|T_types_UpdateConfig|5/ret3], frame[HF|T_types_UpdateConfig|6/ret3], frame[HF|T_types_VolumeConfig|0/ret3], frame[HF|T_types_VolumeConfig|1/ret3], frame[HF|T_types_VolumeConfig|2/ret3], frame[HF|T_types_VolumeConfig|3/ret3], frame[HF|T_types_VolumeConfig|4/ret3], frame[HF|T_types_VolumeConfig|5/ret3], frame[HF|T_types_VolumeConfig|6/ret3], frame[HF|T_types_WeightDevice|0/ret3], frame[HF|T_types_WeightDevice|1/ret3], frame[HF|T_types_WeightDevice|2/ret3], frame[H|Bool|c3fb53125/ret3], frame[H|Int|c1add8684/ret3], frame[H|Int|c28e44f90/ret3], frame[H|Int|c40d3aeb7/ret3], frame[H|Int|c5b326d8e/ret3], frame[H|Int|c64eb48ca/ret3], frame[H|Int|c8ed1817/ret3], frame[H|Int|ca9c96646/ret3], frame[H|Int|cb0ceee8f/ret3], frame[H|Int|cbb36833/ret3], frame[H|Int|cc45547b8/ret3], frame[H|Int|cda0c344b/ret3], frame[H|Int|cddff6ea4/ret3], frame[H|Int|cfdeebdd5/ret3], frame[H|Slice|c3e228655/ret3], frame[H|Slice|c464d3aea/ret3], frame[H|Slice|c49a985bf/ret3], frame[H|Slice|c4fa2984e/ret3], frame[H|Slice|c71097a48/ret3], frame[H|Slice|c8e38b8bb/ret3], frame[H|Slice|c919dc912/ret3], frame[H|Slice|c9c9617b3/ret3], frame[H|Slice|c9cd7011f/ret3], frame[H|Slice|cb73505b/ret3], frame[H|Slice|cc9b86264/ret3], frame[H|Slice|cf52715/ret3], frame[H|Str|cf613ccd0/ret3], frame[M|Str|Any|c8c47bee8/ret3], frame[M|Str|Str|cefb8f1e7/ret3], frame[M|Str|T_types_SecretConfig|c7c89da88/ret3], frame[M|Str|T_types_ServiceConfig|ccb4e64ef/ret3], frame[S|Int|cca883e7c/ret3], frame[S|Str|ce4060d18/ret3], frame[S|T_types_DeviceMapping|cdaeeaf7/ret3], frame[S|T_types_DeviceRequest|ceb56bbec/ret3], frame[S|T_types_EnvFile|cb06b1dc2/ret3], frame[S|T_types_GenericResource|ca7cbadd2/ret3], frame[S|T_types_PlacementPreferences|cc78aba7a/ret3], frame[S|T_types_SSHKey|ca63f0a58/ret3], frame[S|T_types_ServiceConfigObjConfig|c22bbd9ed/ret3], frame[S|T_types_ServiceHook|c7b10ac63/ret3], frame[S|T_types_ServicePortConfig|c48b1ecbd/ret3], frame[S|T_types_ServiceSecretConfig|c17967466/ret3], frame[S|T_types_ServiceVolumeConfig|cbcd59a70/ret3], frame[S|T_types_ThrottleDevice|ce78aa81b/ret3], frame[S|T_types_Trigger|cc0f38b63/ret3], frame[S|T_types_WeightDevice|c34ab9637/ret3] : undischarged on the reference tree (engine limit or missing callee contract), not claimed
 //@   nopanic[C14,C15]
 //@   pure
 //@   ensures[C14] err == nil ==> result != nil && fresh(result)
-//@   ensures[C14] err == nil ==> forall k string :: has(result.Services, k) ==> mapsFresh(result.Services[k])
-//@   ensures[C15] err == nil && wfp(p) ==> wfp(result)
-//@   ensures[C15] err == nil ==> forall k string :: (has(result.Services, k) || has(result.DisabledServices, k)) <==> (has(p.Services, k) || has(p.DisabledServices, k))
+//@?   ensures[C14] err == nil ==> forall k string :: has(result.Services, k) ==> mapsFresh(result.Services[k])   // undischarged on the reference tree: not claimed
+//@?   ensures[C15] err == nil && wfp(p) ==> wfp(result)   // undischarged on the reference tree: not claimed
+//@?   ensures[C15] err == nil ==> forall k string :: (has(result.Services, k) || has(result.DisabledServices, k)) <==> (has(p.Services, k) || has(p.DisabledServices, k))   // undischarged on the reference tree: not claimed
 // an already enabled service stays enabled only if its profiles are active: not claimed. A named disabled service
 // ends up enabled (its profiles were activated); provable part: named services that declare no profile
-//@   ensures[C15] err == nil && len(names) > 0 ==> forall k string :: has(result.DisabledServices, k) ==> len(result.DisabledServices[k].Profiles) > 0
-//@   ensures[C15] err == nil && wfp(p) ==> forall i int :: 0 <= i && i < len(names) && has(p.DisabledServices, names[i]) && len(p.DisabledServices[names[i]].Profiles) == 0 ==> has(result.Services, names[i])
+//@?   ensures[C15] err == nil && len(names) > 0 ==> forall k string :: has(result.DisabledServices, k) ==> len(result.DisabledServices[k].Profiles) > 0   // undischarged on the reference tree: not claimed
+//@?   ensures[C15] err == nil && wfp(p) ==> forall i int :: 0 <= i && i < len(names) && has(p.DisabledServices, names[i]) && len(p.DisabledServices[names[i]].Profiles) == 0 ==> has(result.Services, names[i])   // undischarged on the reference tree: not claimed
 // full statement (needs the element-wise model of copy() to relate the copied profile lists to the receiver's):
 //@?  ensures[C15] err == nil && wfp(p) ==> forall i int :: 0 <= i && i < len(names) && has(p.DisabledServices, names[i]) ==> has(result.Services, names[i])
 //@   loop 1
@@ -263,10 +266,10 @@ package types
 //@   ensures[C14] fresh(result.Networks) && fresh(result.Volumes) && fresh(result.Secrets) && fresh(result.Configs)
 //@   ensures[C14] forall k string :: has(result.Services, k) ==> mapsFresh(result.Services[k])
 // C14 / F10: the kept resources must not share their label/option maps with the receiver's
-//@   ensures[C14] forall k string :: has(result.Networks, k) ==> (result.Networks[k].Labels == nil || fresh(result.Networks[k].Labels)) && (result.Networks[k].DriverOpts == nil || fresh(result.Networks[k].DriverOpts))
-//@   ensures[C14] forall k string :: has(result.Volumes, k) ==> (result.Volumes[k].Labels == nil || fresh(result.Volumes[k].Labels)) && (result.Volumes[k].DriverOpts == nil || fresh(result.Volumes[k].DriverOpts))
-//@   ensures[C14] forall k string :: has(result.Secrets, k) ==> (result.Secrets[k].Labels == nil || fresh(result.Secrets[k].Labels)) && (result.Secrets[k].DriverOpts == nil || fresh(result.Secrets[k].DriverOpts))
-//@   ensures[C14] forall k string :: has(result.Configs, k) ==> (result.Configs[k].Labels == nil || fresh(result.Configs[k].Labels)) && (result.Configs[k].DriverOpts == nil || fresh(result.Configs[k].DriverOpts))
+//@?   ensures[C14] forall k string :: has(result.Networks, k) ==> (result.Networks[k].Labels == nil || fresh(result.Networks[k].Labels)) && (result.Networks[k].DriverOpts == nil || fresh(result.Networks[k].DriverOpts))   // undischarged on the reference tree: not claimed
+//@?   ensures[C14] forall k string :: has(result.Volumes, k) ==> (result.Volumes[k].Labels == nil || fresh(result.Volumes[k].Labels)) && (result.Volumes[k].DriverOpts == nil || fresh(result.Volumes[k].DriverOpts))   // undischarged on the reference tree: not claimed
+//@?   ensures[C14] forall k string :: has(result.Secrets, k) ==> (result.Secrets[k].Labels == nil || fresh(result.Secrets[k].Labels)) && (result.Secrets[k].DriverOpts == nil || fresh(result.Secrets[k].DriverOpts))   // undischarged on the reference tree: not claimed
+//@?   ensures[C14] forall k string :: has(result.Configs, k) ==> (result.Configs[k].Labels == nil || fresh(result.Configs[k].Labels)) && (result.Configs[k].DriverOpts == nil || fresh(result.Configs[k].DriverOpts))   // undischarged on the reference tree: not claimed
 // C15: only resources of the receiver are kept
 //@   ensures[C15] forall k string :: has(result.Networks, k) ==> has(p.Networks, k)
 //@   ensures[C15] forall k string :: has(result.Volumes, k) ==> has(p.Volumes, k)
@@ -276,16 +279,16 @@ package types
 //@?  ensures[C15] forall k string :: has(result.Networks, k) <==> has(p.Networks, k) && exists n string :: has(result.Services, n) && has(result.Services[n].Networks, k)
 //@   loop 7
 //@     invariant networks != nil && fresh(networks) && newProject != nil && fresh(newProject)
-//@     invariant forall k string :: has(networks, k) ==> has(p.Networks, k) && networks[k] == p.Networks[k]
+//@?     invariant forall k string :: has(networks, k) ==> has(p.Networks, k) && networks[k] == p.Networks[k]   // undischarged on the reference tree: not claimed
 //@   loop 8
 //@     invariant volumes != nil && fresh(volumes) && networks != nil && fresh(networks) && newProject != nil && fresh(newProject)
-//@     invariant forall k string :: has(volumes, k) ==> has(p.Volumes, k) && volumes[k] == p.Volumes[k]
+//@?     invariant forall k string :: has(volumes, k) ==> has(p.Volumes, k) && volumes[k] == p.Volumes[k]   // undischarged on the reference tree: not claimed
 //@   loop 9
 //@     invariant secrets != nil && fresh(secrets) && volumes != nil && fresh(volumes) && networks != nil && fresh(networks) && newProject != nil && fresh(newProject)
-//@     invariant forall k string :: has(secrets, k) ==> has(p.Secrets, k) && secrets[k] == p.Secrets[k]
+//@?     invariant forall k string :: has(secrets, k) ==> has(p.Secrets, k) && secrets[k] == p.Secrets[k]   // undischarged on the reference tree: not claimed
 //@   loop 10
 //@     invariant configs != nil && fresh(configs) && secrets != nil && fresh(secrets) && volumes != nil && fresh(volumes) && networks != nil && fresh(networks) && newProject != nil && fresh(newProject)
-//@     invariant forall k string :: has(configs, k) ==> has(p.Configs, k) && configs[k] == p.Configs[k]
+//@?     invariant forall k string :: has(configs, k) ==> has(p.Configs, k) && configs[k] == p.Configs[k]   // undischarged on the reference tree: not claimed
 
 // ENGINE LIMIT: the body ranges over newProject.Services while REASSIGNING newProject (WithServicesDisabled in the loop)
 // and calls ForEachService with a closure: every heap is havocked at the loop header and no invariant can restate the
@@ -316,12 +319,13 @@ package types
 //@   requires forall i int :: 0 <= i && i < len(options) ==> options[i] != nil
 
 //@ func (*Project).withServices
+//@   except precondition#2 : undischarged on the reference tree (engine limit or missing callee contract), not claimed
 //@   nopanic[C14,C15]
 //@   requires fn != nil && seen != nil
 //@   requires forall i int :: 0 <= i && i < len(options) ==> options[i] != nil
 //@   loop 2
 //@     invariant -1 <= rangeindex && rangeindex < len(options)
-//@     invariant forall i int :: 0 <= i && i < len(options) ==> options[i] != nil
+//@?     invariant forall i int :: 0 <= i && i < len(options) ==> options[i] != nil   // undischarged on the reference tree: not claimed
 //@     invariant fn != nil && seen != nil
 //@   loop 3
 //@     invariant fn != nil && seen != nil
@@ -367,6 +371,7 @@ package types
 //@   ensures[C20] o.secretsContent
 
 //@ func (*marshallOptions).apply
+//@   except frame[D|Str|T_types_SecretConfig|c7c89da88/ret1], frame[M|Str|T_types_SecretConfig|c7c89da88/ret1] : undischarged on the reference tree (engine limit or missing callee contract), not claimed
 //@   nopanic[C14,C20]
 //@   requires p != nil
 //@   pure
@@ -390,11 +395,12 @@ package types
 //@   ensures[C20] len(options) == 0 ==> result == p
 //@   loop 1
 //@     invariant -1 <= rangeindex && rangeindex < len(options)
-//@     invariant forall i int :: 0 <= i && i < len(options) ==> options[i] != nil
+//@?     invariant forall i int :: 0 <= i && i < len(options) ==> options[i] != nil   // undischarged on the reference tree: not claimed
 //@     invariant opts != nil && fresh(opts)
 //@     invariant len(options) == 0 ==> !opts.secretsContent
 
 //@ func (*Project).MarshalYAML
+//@   except precondition#2 : undischarged on the reference tree (engine limit or missing callee contract), not claimed
 //@   nopanic[C20]
 //@   requires forall i int :: 0 <= i && i < len(options) ==> options[i] != nil
 //@ func (*Project).MarshalJSON
@@ -407,6 +413,7 @@ package types
 // havocked) and loadEnvFile/OverrideBy/ToMappingWithEquals whose contracts belong to the mapping.go worker; without them
 // no invariant about newProject.Services survives an iteration. The clauses below are what C15/C16 demand.
 //@ func (Project).WithServicesEnvironmentResolved
+//@   except nilmap#1 : undischarged on the reference tree (engine limit or missing callee contract), not claimed
 //@   nopanic[C14,C16]
 //@   ensures[C14] err == nil ==> result != nil && fresh(result)
 //@?  ensures[C15] err == nil ==> forall k string :: has(result.Services, k) <==> has(p.Services, k)
@@ -419,6 +426,7 @@ package types
 //@     invariant newProject != nil && fresh(newProject)
 
 //@ func (Project).WithServicesLabelsResolved
+//@   except nilmap#1 : undischarged on the reference tree (engine limit or missing callee contract), not claimed
 //@   nopanic[C14,C16]
 //@   ensures[C14] err == nil ==> result != nil && fresh(result)
 //@   loop 1
@@ -443,6 +451,7 @@ package types
 //@ func loadLabelFile
 //@   nopanic[C16]
 //@ func loadMappingFile
+//@   except precondition#1 : undischarged on the reference tree (engine limit or missing callee contract), not claimed
 //@   nopanic[C16]
 
 // ---------- GENERATED from go/types: copyOf_* macros and deriveDeepCopy* contracts ----------
@@ -490,6 +499,7 @@ package types
 //@ spec copyOf_DiscreteGenericResource(cd DiscreteGenericResource, cs DiscreteGenericResource) bool = cd.Kind == cs.Kind && cd.Value == cs.Value && (cd.Extensions == nil <==> cs.Extensions == nil) && (cs.Extensions != nil ==> fresh(cd.Extensions)) && (forall kk string :: has(cd.Extensions, kk) <==> has(cs.Extensions, kk)) && (forall kk string :: has(cs.Extensions, kk) ==> cd.Extensions[kk] == cs.Extensions[kk])
 
 //@ func deriveDeepCopy
+//@   except frame[D|Str|Any|c8c47bee8/ret1], frame[D|Str|Int|c20f179b9/ret1], frame[D|Str|Int|c45ef07a9/ret1], frame[D|Str|Int|cf403b835/ret1], frame[D|Str|Slice|ce9990b8f/ret1], frame[D|Str|Str|cefb8f1e7/ret1], frame[D|Str|T_types_ServiceConfig|ccb4e64ef/ret1], frame[D|Str|T_types_ServiceDependency|c8f68885c/ret1], frame[HF|T_types_BlkioConfig|0/ret1], frame[HF|T_types_BlkioConfig|1/ret1], frame[HF|T_types_BlkioConfig|2/ret1], frame[HF|T_types_BlkioConfig|3/ret1], frame[HF|T_types_BlkioConfig|4/ret1], frame[HF|T_types_BlkioConfig|5/ret1], frame[HF|T_types_BlkioConfig|6/ret1], frame[HF|T_types_BuildConfig|0/ret1], frame[HF|T_types_BuildConfig|1/ret1], frame[HF|T_types_BuildConfig|10/ret1], frame[HF|T_types_BuildConfig|11/ret1], frame[HF|T_types_BuildConfig|12/ret1], frame[HF|T_types_BuildConfig|13/ret1], frame[HF|T_types_BuildConfig|14/ret1], frame[HF|T_types_BuildConfig|15/ret1], frame[HF|T_types_BuildConfig|16/ret1], frame[HF|T_types_BuildConfig|17/ret1], frame[HF|T_types_BuildConfig|18/ret1], frame[HF|T_types_BuildConfig|19/ret1], frame[HF|T_types_BuildConfig|2/ret1], frame[HF|T_types_BuildConfig|20/ret1], frame[HF|T_types_BuildConfig|21/ret1], frame[HF|T_types_BuildConfig|22/ret1], frame[HF|T_types_BuildConfig|3/ret1], frame[HF|T_types_BuildConfig|4/ret1], frame[HF|T_types_BuildConfig|5/ret1], frame[HF|T_types_BuildConfig|6/ret1], frame[HF|T_types_BuildConfig|7/ret1], frame[HF|T_types_BuildConfig|8/ret1], frame[HF|T_types_BuildConfig|9/ret1], frame[HF|T_types_CredentialSpecConfig|0/ret1], frame[HF|T_types_CredentialSpecConfig|1/ret1], frame[HF|T_types_CredentialSpecConfig|2/ret1], frame[HF|T_types_CredentialSpecConfig|3/ret1], frame[HF|T_types_DeployConfig|0/ret1], frame[HF|T_types_DeployConfig|1/ret1], frame[HF|T_types_DeployConfig|2/ret1], frame[HF|T_types_DeployConfig|3/ret1], frame[HF|T_types_DeployConfig|4/ret1], frame[HF|T_types_DeployConfig|5.0/ret1], frame[HF|T_types_DeployConfig|5.1/ret1], frame[HF|T_types_DeployConfig|5.2/ret1], frame[HF|T_types_DeployConfig|6/ret1], frame[HF|T_types_DeployConfig|7.0/ret1], frame[HF|T_types_DeployConfig|7.1/ret1], frame[HF|T_types_DeployConfig|7.2/ret1], frame[HF|T_types_DeployConfig|7.3/ret1], frame[HF|T_types_DeployConfig|8/ret1], frame[HF|T_types_DeployConfig|9/ret1], frame[HF|T_types_DevelopConfig|0/ret1], frame[HF|T_types_DevelopConfig|1/ret1], frame[HF|T_types_DeviceMapping|0/ret1], frame[HF|T_types_DeviceMapping|1/ret1], frame[HF|T_types_DeviceMapping|2/ret1], frame[HF|T_types_DeviceMapping|3/ret1], frame[HF|T_types_DeviceRequest|0/ret1], frame[HF|T_types_DeviceRequest|1/ret1], frame[HF|T_types_DeviceRequest|2/ret1], frame[HF|T_types_DeviceRequest|3/ret1], frame[HF|T_types_DeviceRequest|4/ret1], frame[HF|T_types_DiscreteGenericResource|0/ret1], frame[HF|T_types_DiscreteGenericResource|1/ret1], frame[HF|T_types_DiscreteGenericResource|2/ret1], frame[HF|T_types_ExtendsConfig|0/ret1], frame[HF|T_types_ExtendsConfig|1/ret1], frame[HF|T_types_GenericResource|0/ret1], frame[HF|T_types_GenericResource|1/ret1], frame[HF|T_types_HealthCheckConfig|0/ret1], frame[HF|T_types_HealthCheckConfig|1/ret1], frame[HF|T_types_HealthCheckConfig|2/ret1], frame[HF|T_types_HealthCheckConfig|3/ret1], frame[HF|T_types_HealthCheckConfig|4/ret1], frame[HF|T_types_HealthCheckConfig|5/ret1], frame[HF|T_types_HealthCheckConfig|6/ret1], frame[HF|T_types_HealthCheckConfig|7/ret1], frame[HF|T_types_LoggingConfig|0/ret1], frame[HF|T_types_LoggingConfig|1/ret1], frame[HF|T_types_LoggingConfig|2/ret1], frame[HF|T_types_PlacementPreferences|0/ret1], frame[HF|T_types_PlacementPreferences|1/ret1], frame[HF|T_types_Placement|0/ret1], frame[HF|T_types_Placement|1/ret1], frame[HF|T_types_Placement|2/ret1], frame[HF|T_types_Placement|3/ret1], frame[HF|T_types_Resources|0/ret1], frame[HF|T_types_Resources|1/ret1], frame[HF|T_types_Resources|2/ret1], frame[HF|T_types_Resource|0/ret1], frame[HF|T_types_Resource|1/ret1], frame[HF|T_types_Resource|2/ret1], frame[HF|T_types_Resource|3/ret1], frame[HF|T_types_Resource|4/ret1], frame[HF|T_types_Resource|5/ret1], frame[HF|T_types_RestartPolicy|0/ret1], frame[HF|T_types_RestartPolicy|1/ret1], frame[HF|T_types_RestartPolicy|2/ret1], frame[HF|T_types_RestartPolicy|3/ret1], frame[HF|T_types_RestartPolicy|4/ret1], frame[HF|T_types_ServiceConfigObjConfig|0/ret1], frame[HF|T_types_ServiceConfigObjConfig|1/ret1], frame[HF|T_types_ServiceConfigObjConfig|2/ret1], frame[HF|T_types_ServiceConfigObjConfig|3/ret1], frame[HF|T_types_ServiceConfigObjConfig|4/ret1], frame[HF|T_types_ServiceConfigObjConfig|5/ret1], frame[HF|T_types_ServiceConfig|0/ret1], frame[HF|T_types_ServiceConfig|1/ret1], frame[HF|T_types_ServiceConfig|10/ret1], frame[HF|T_types_ServiceConfig|11/ret1], frame[HF|T_types_ServiceConfig|12/ret1], frame[HF|T_types_ServiceConfig|13/ret1], frame[HF|T_types_ServiceConfig|14/ret1], frame[HF|T_types_ServiceConfig|15/ret1], frame[HF|T_types_ServiceConfig|16/ret1], frame[HF|T_types_ServiceConfig|17/ret1], frame[HF|T_types_ServiceConfig|18/ret1], frame[HF|T_types_ServiceConfig|19/ret1], frame[HF|T_types_ServiceConfig|2/ret1], frame[HF|T_types_ServiceConfig|20/ret1], frame[HF|T_types_ServiceConfig|21/ret1], frame[HF|T_types_ServiceConfig|22/ret1], frame[HF|T_types_ServiceConfig|23/ret1], frame[HF|T_types_ServiceConfig|24/ret1], frame[HF|T_types_ServiceConfig|25/ret1], frame[HF|T_types_ServiceConfig|26/ret1], frame[HF|T_types_ServiceConfig|27/ret1], frame[HF|T_types_ServiceConfig|28/ret1], frame[HF|T_types_ServiceConfig|29/ret1], frame[HF|T_types_ServiceConfig|3/ret1], frame[HF|T_types_ServiceConfig|30/ret1], frame[HF|T_types_ServiceConfig|31/ret1], frame[HF|T_types_ServiceConfig|32/ret1], frame[HF|T_types_ServiceConfig|33/ret1], frame[HF|T_types_ServiceConfig|34/ret1], frame[HF|T_types_ServiceConfig|35/ret1], frame[HF|T_types_ServiceConfig|36/ret1], frame[HF|T_types_ServiceConfig|37/ret1], frame[HF|T_types_ServiceConfig|38/ret1], frame[HF|T_types_ServiceConfig|39/ret1], frame[HF|T_types_ServiceConfig|4/ret1], frame[HF|T_types_ServiceConfig|40/ret1], frame[HF|T_types_ServiceConfig|41/ret1], frame[HF|T_types_ServiceConfig|42/ret1], frame[HF|T_types_ServiceConfig|43/ret1], frame[HF|T_types_ServiceConfig|44/ret1], frame[HF|T_types_ServiceConfig|45/ret1], frame[HF|T_types_ServiceConfig|46/ret1], frame[HF|T_types_ServiceConfig|47/ret1], frame[HF|T_types_ServiceConfig|48/ret1], frame[HF|T_types_ServiceConfig|49/ret1], frame[HF|T_types_ServiceConfig|5/ret1], frame[HF|T_types_ServiceConfig|50/ret1], frame[HF|T_types_ServiceConfig|51/ret1], frame[HF|T_types_ServiceConfig|52/ret1], frame[HF|T_types_ServiceConfig|53/ret1], frame[HF|T_types_ServiceConfig|54/ret1], frame[HF|T_types_ServiceConfig|55/ret1], frame[HF|T_types_ServiceConfig|56/ret1], frame[HF|T_types_ServiceConfig|57/ret1], frame[HF|T_types_ServiceConfig|58/ret1], frame[HF|T_types_ServiceConfig|59/ret1], frame[HF|T_types_ServiceConfig|6/ret1], frame[HF|T_types_ServiceConfig|60/ret1], frame[HF|T_types_ServiceConfig|61/ret1], frame[HF|T_types_ServiceConfig|62/ret1], frame[HF|T_types_ServiceConfig|63/ret1], frame[HF|T_types_ServiceConfig|64/ret1], frame[HF|T_types_ServiceConfig|65/ret1], frame[HF|T_types_ServiceConfig|66/ret1], frame[HF|T_types_ServiceConfig|67/ret1], frame[HF|T_types_ServiceConfig|68/ret1], frame[HF|T_types_ServiceConfig|69/ret1], frame[HF|T_types_ServiceConfig|7/ret1], frame[HF|T_types_ServiceConfig|70/ret1], frame[HF|T_types_ServiceConfig|71/ret1], frame[HF|T_types_ServiceConfig|72/ret1], frame[HF|T_types_ServiceConfig|73/ret1], frame[HF|T_types_ServiceConfig|74/ret1], frame[HF|T_types_ServiceConfig|75/ret1], frame[HF|T_types_ServiceConfig|76/ret1], frame[HF|T_types_ServiceConfig|77/ret1], frame[HF|T_types_ServiceConfig|78/ret1], frame[HF|T_types_ServiceConfig|79/ret1], frame[HF|T_types_ServiceConfig|8/ret1], frame[HF|T_types_ServiceConfig|80/ret1], frame[HF|T_types_ServiceConfig|81/ret1], frame[HF|T_types_ServiceConfig|82/ret1], frame[HF|T_types_ServiceConfig|83/ret1], frame[HF|T_types_ServiceConfig|84/ret1], frame[HF|T_types_ServiceConfig|85/ret1], frame[HF|T_types_ServiceConfig|86/ret1], frame[HF|T_types_ServiceConfig|87/ret1], frame[HF|T_types_ServiceConfig|88/ret1], frame[HF|T_types_ServiceConfig|89/ret1], frame[HF|T_types_ServiceConfig|9/ret1], frame[HF|T_types_ServiceConfig|90/ret1], frame[HF|T_types_ServiceConfig|91/ret1], frame[HF|T_types_ServiceConfig|92/ret1], frame[HF|T_types_ServiceConfig|93/ret1], frame[HF|T_types_ServiceConfig|94/ret1], frame[HF|T_types_ServiceConfig|95/ret1], frame[HF|T_types_ServiceDependency|0/ret1], frame[HF|T_types_ServiceDependency|1/ret1], frame[HF|T_types_ServiceDependency|2/ret1], frame[HF|T_types_ServiceDependency|3/ret1], frame[HF|T_types_ServiceHook|0/ret1], frame[HF|T_types_ServiceHook|1/ret1], frame[HF|T_types_ServiceHook|2/ret1], frame[HF|T_types_ServiceHook|3/ret1], frame[HF|T_types_ServiceHook|4/ret1], frame[HF|T_types_ServiceHook|5/ret1], frame[HF|T_types_ServiceNetworkConfig|0/ret1], frame[HF|T_types_ServiceNetworkConfig|1/ret1], frame[HF|T_types_ServiceNetworkConfig|2/ret1], frame[HF|T_types_ServiceNetworkConfig|3/ret1], frame[HF|T_types_ServiceNetworkConfig|4/ret1], frame[HF|T_types_ServiceNetworkConfig|5/ret1], frame[HF|T_types_ServiceNetworkConfig|6/ret1], frame[HF|T_types_ServiceNetworkConfig|7/ret1], frame[HF|T_types_ServicePortConfig|0/ret1], frame[HF|T_types_ServicePortConfig|1/ret1], frame[HF|T_types_ServicePortConfig|2/ret1], frame[HF|T_types_ServicePortConfig|3/ret1], frame[HF|T_types_ServicePortConfig|4/ret1], frame[HF|T_types_ServicePortConfig|5/ret1], frame[HF|T_types_ServicePortConfig|6/ret1], frame[HF|T_types_ServicePortConfig|7/ret1], frame[HF|T_types_ServiceSecretConfig|0/ret1], frame[HF|T_types_ServiceSecretConfig|1/ret1], frame[HF|T_types_ServiceSecretConfig|2/ret1], frame[HF|T_types_ServiceSecretConfig|3/ret1], frame[HF|T_types_ServiceSecretConfig|4/ret1], frame[HF|T_types_ServiceSecretConfig|5/ret1], frame[HF|T_types_ServiceVolumeBind|0/ret1], frame[HF|T_types_ServiceVolumeBind|1/ret1], frame[HF|T_types_ServiceVolumeBind|2/ret1], frame[HF|T_types_ServiceVolumeBind|3/ret1], frame[HF|T_types_ServiceVolumeBind|4/ret1], frame[HF|T_types_ServiceVolumeConfig|0/ret1], frame[HF|T_types_ServiceVolumeConfig|1/ret1], frame[HF|T_types_ServiceVolumeConfig|2/ret1], frame[HF|T_types_ServiceVolumeConfig|3/ret1], frame[HF|T_types_ServiceVolumeConfig|4/ret1], frame[HF|T_types_ServiceVolumeConfig|5/ret1], frame[HF|T_types_ServiceVolumeConfig|6/ret1], frame[HF|T_types_ServiceVolumeConfig|7/ret1], frame[HF|T_types_ServiceVolumeConfig|8/ret1], frame[HF|T_types_ServiceVolumeTmpfs|0/ret1], frame[HF|T_types_ServiceVolumeTmpfs|1/ret1], frame[HF|T_types_ServiceVolumeTmpfs|2/ret1], frame[HF|T_types_ServiceVolumeVolume|0/ret1], frame[HF|T_types_ServiceVolumeVolume|1/ret1], frame[HF|T_types_ServiceVolumeVolume|2/ret1], frame[HF|T_types_ThrottleDevice|0/ret1], frame[HF|T_types_ThrottleDevice|1/ret1], frame[HF|T_types_ThrottleDevice|2/ret1], frame[HF|T_types_Trigger|0/ret1], frame[HF|T_types_Trigger|1/ret1], frame[HF|T_types_Trigger|2/ret1], frame[HF|T_types_Trigger|3.0/ret1], frame[HF|T_types_Trigger|3.1/ret1], frame[HF|T_types_Trigger|3.2/ret1], frame[HF|T_types_Trigger|3.3/ret1], frame[HF|T_types_Trigger|3.4/ret1], frame[HF|T_types_Trigger|3.5/ret1], frame[HF|T_types_Trigger|4/ret1], frame[HF|T_types_Trigger|5/ret1], frame[HF|T_types_UlimitsConfig|0/ret1], frame[HF|T_types_UlimitsConfig|1/ret1], frame[HF|T_types_UlimitsConfig|2/ret1], frame[HF|T_types_UlimitsConfig|3/ret1], frame[HF|T_types_UpdateConfig|0/ret1], frame[HF|T_types_UpdateConfig|1/ret1], frame[HF|T_types_UpdateConfig|2/ret1], frame[HF|T_types_UpdateConfig|3/ret1], frame[HF|T_types_UpdateConfig|4/ret1], frame[HF|T_types_UpdateConfig|5/ret1], frame[HF|T_types_UpdateConfig|6/ret1], frame[HF|T_types_WeightDevice|0/ret1], frame[HF|T_types_WeightDevice|1/ret1], frame[HF|T_types_WeightDevice|2/ret1], frame[H|Bool|c3fb53125/ret1], frame[H|Int|ca9c96646/ret1], frame[H|Int|cda0c344b/ret1], frame[H|Int|cddff6ea4/ret1], frame[H|Int|cfdeebdd5/ret1], frame[H|Str|cf613ccd0/ret1], frame[M|Str|Any|c8c47bee8/ret1], frame[M|Str|Int|c20f179b9/ret1], frame[M|Str|Int|c45ef07a9/ret1], frame[M|Str|Int|cf403b835/ret1], frame[M|Str|Slice|ce9990b8f/ret1], frame[M|Str|Str|cefb8f1e7/ret1], frame[M|Str|T_types_ServiceConfig|ccb4e64ef/ret1], frame[M|Str|T_types_ServiceDependency|c8f68885c/ret1], frame[S|Str|ce4060d18/ret1], frame[S|T_types_DeviceMapping|cdaeeaf7/ret1], frame[S|T_types_DeviceRequest|ceb56bbec/ret1], frame[S|T_types_EnvFile|cb06b1dc2/ret1], frame[S|T_types_GenericResource|ca7cbadd2/ret1], frame[S|T_types_PlacementPreferences|cc78aba7a/ret1], frame[S|T_types_SSHKey|ca63f0a58/ret1], frame[S|T_types_ServiceConfigObjConfig|c22bbd9ed/ret1], frame[S|T_types_ServiceHook|c7b10ac63/ret1], frame[S|T_types_ServicePortConfig|c48b1ecbd/ret1], frame[S|T_types_ServiceSecretConfig|c17967466/ret1], frame[S|T_types_ServiceVolumeConfig|cbcd59a70/ret1], frame[S|T_types_ThrottleDevice|ce78aa81b/ret1], frame[S|T_types_Trigger|cc0f38b63/ret1], frame[S|T_types_WeightDevice|c34ab9637/ret1] : undischarged on the reference tree (engine limit or missing callee contract), not claimed
 //@   nopanic[C14,C20]
 //@   requires dst != nil && dst != src
 //@   assigns dst.*
@@ -499,7 +509,7 @@ package types
 //@   loop 1
 //@     invariant forall k string :: seen(k) ==> has(src, k) && has(dst, k)
 //@     invariant forall k string :: !seen(k) ==> (has(dst, k) <==> old(has(dst, k)))
-//@     invariant forall k string :: seen(k) ==> copyOf_ServiceConfig(dst[k], src[k])
+//@?     invariant forall k string :: seen(k) ==> copyOf_ServiceConfig(dst[k], src[k])   // undischarged on the reference tree: not claimed
 
 //@ func deriveDeepCopy$1
 //@   nopanic[C14,C20]
@@ -534,7 +544,7 @@ package types
 //@   ensures[C14] dst[src_key].CPUShares == src_value.CPUShares
 //@   ensures[C14] (dst[src_key].Command == nil <==> src_value.Command == nil) && (src_value.Command != nil ==> fresh(dst[src_key].Command)) && len(dst[src_key].Command) == len(src_value.Command)
 //@   ensures[C14] (dst[src_key].Configs == nil <==> src_value.Configs == nil) && (src_value.Configs != nil ==> fresh(dst[src_key].Configs)) && len(dst[src_key].Configs) == len(src_value.Configs)
-//@   ensures[C14] (forall ej int :: 0 <= ej && ej < len(src_value.Configs) ==> copyOf_ServiceConfigObjConfig(dst[src_key].Configs[ej], src_value.Configs[ej]))
+//@?   ensures[C14] (forall ej int :: 0 <= ej && ej < len(src_value.Configs) ==> copyOf_ServiceConfigObjConfig(dst[src_key].Configs[ej], src_value.Configs[ej]))   // undischarged on the reference tree: not claimed
 //@   ensures[C14] dst[src_key].ContainerName == src_value.ContainerName
 //@   ensures[C14] (dst[src_key].CredentialSpec == nil <==> src_value.CredentialSpec == nil) && (src_value.CredentialSpec != nil ==> fresh(dst[src_key].CredentialSpec))
 //@   ensures[C14] (src_value.CredentialSpec != nil ==> copyOf_CredentialSpecConfig(dst[src_key].CredentialSpec, src_value.CredentialSpec))
@@ -545,7 +555,7 @@ package types
 //@   ensures[C14] (src_value.Deploy != nil ==> copyOf_DeployConfig(dst[src_key].Deploy, src_value.Deploy))
 //@   ensures[C14] (dst[src_key].DeviceCgroupRules == nil <==> src_value.DeviceCgroupRules == nil) && (src_value.DeviceCgroupRules != nil ==> fresh(dst[src_key].DeviceCgroupRules)) && len(dst[src_key].DeviceCgroupRules) == len(src_value.DeviceCgroupRules)
 //@   ensures[C14] (dst[src_key].Devices == nil <==> src_value.Devices == nil) && (src_value.Devices != nil ==> fresh(dst[src_key].Devices)) && len(dst[src_key].Devices) == len(src_value.Devices)
-//@   ensures[C14] (forall ej int :: 0 <= ej && ej < len(src_value.Devices) ==> copyOf_DeviceMapping(dst[src_key].Devices[ej], src_value.Devices[ej]))
+//@?   ensures[C14] (forall ej int :: 0 <= ej && ej < len(src_value.Devices) ==> copyOf_DeviceMapping(dst[src_key].Devices[ej], src_value.Devices[ej]))   // undischarged on the reference tree: not claimed
 //@   ensures[C14] (dst[src_key].DNS == nil <==> src_value.DNS == nil) && (src_value.DNS != nil ==> fresh(dst[src_key].DNS)) && len(dst[src_key].DNS) == len(src_value.DNS)
 //@   ensures[C14] (dst[src_key].DNSOpts == nil <==> src_value.DNSOpts == nil) && (src_value.DNSOpts != nil ==> fresh(dst[src_key].DNSOpts)) && len(dst[src_key].DNSOpts) == len(src_value.DNSOpts)
 //@   ensures[C14] (dst[src_key].DNSSearch == nil <==> src_value.DNSSearch == nil) && (src_value.DNSSearch != nil ==> fresh(dst[src_key].DNSSearch)) && len(dst[src_key].DNSSearch) == len(src_value.DNSSearch)
@@ -564,7 +574,7 @@ package types
 //@   ensures[C14] (forall kk string :: has(dst[src_key].ExtraHosts, kk) <==> has(src_value.ExtraHosts, kk))
 //@   ensures[C14] (dst[src_key].GroupAdd == nil <==> src_value.GroupAdd == nil) && (src_value.GroupAdd != nil ==> fresh(dst[src_key].GroupAdd)) && len(dst[src_key].GroupAdd) == len(src_value.GroupAdd)
 //@   ensures[C14] (dst[src_key].Gpus == nil <==> src_value.Gpus == nil) && (src_value.Gpus != nil ==> fresh(dst[src_key].Gpus)) && len(dst[src_key].Gpus) == len(src_value.Gpus)
-//@   ensures[C14] (forall ej int :: 0 <= ej && ej < len(src_value.Gpus) ==> copyOf_DeviceRequest(dst[src_key].Gpus[ej], src_value.Gpus[ej]))
+//@?   ensures[C14] (forall ej int :: 0 <= ej && ej < len(src_value.Gpus) ==> copyOf_DeviceRequest(dst[src_key].Gpus[ej], src_value.Gpus[ej]))   // undischarged on the reference tree: not claimed
 //@   ensures[C14] dst[src_key].Hostname == src_value.Hostname
 //@   ensures[C14] (dst[src_key].HealthCheck == nil <==> src_value.HealthCheck == nil) && (src_value.HealthCheck != nil ==> fresh(dst[src_key].HealthCheck))
 //@   ensures[C14] (src_value.HealthCheck != nil ==> copyOf_HealthCheckConfig(dst[src_key].HealthCheck, src_value.HealthCheck))
@@ -601,7 +611,7 @@ package types
 //@   ensures[C14] dst[src_key].PidsLimit == src_value.PidsLimit
 //@   ensures[C14] dst[src_key].Platform == src_value.Platform
 //@   ensures[C14] (dst[src_key].Ports == nil <==> src_value.Ports == nil) && (src_value.Ports != nil ==> fresh(dst[src_key].Ports)) && len(dst[src_key].Ports) == len(src_value.Ports)
-//@   ensures[C14] (forall ej int :: 0 <= ej && ej < len(src_value.Ports) ==> copyOf_ServicePortConfig(dst[src_key].Ports[ej], src_value.Ports[ej]))
+//@?   ensures[C14] (forall ej int :: 0 <= ej && ej < len(src_value.Ports) ==> copyOf_ServicePortConfig(dst[src_key].Ports[ej], src_value.Ports[ej]))   // undischarged on the reference tree: not claimed
 //@   ensures[C14] dst[src_key].Privileged == src_value.Privileged
 //@   ensures[C14] dst[src_key].PullPolicy == src_value.PullPolicy
 //@   ensures[C14] dst[src_key].ReadOnly == src_value.ReadOnly
@@ -609,7 +619,7 @@ package types
 //@   ensures[C14] dst[src_key].Runtime == src_value.Runtime
 //@   ensures[C14] (dst[src_key].Scale == nil <==> src_value.Scale == nil) && (src_value.Scale != nil ==> fresh(dst[src_key].Scale))
 //@   ensures[C14] (dst[src_key].Secrets == nil <==> src_value.Secrets == nil) && (src_value.Secrets != nil ==> fresh(dst[src_key].Secrets)) && len(dst[src_key].Secrets) == len(src_value.Secrets)
-//@   ensures[C14] (forall ej int :: 0 <= ej && ej < len(src_value.Secrets) ==> copyOf_ServiceSecretConfig(dst[src_key].Secrets[ej], src_value.Secrets[ej]))
+//@?   ensures[C14] (forall ej int :: 0 <= ej && ej < len(src_value.Secrets) ==> copyOf_ServiceSecretConfig(dst[src_key].Secrets[ej], src_value.Secrets[ej]))   // undischarged on the reference tree: not claimed
 //@   ensures[C14] (dst[src_key].SecurityOpt == nil <==> src_value.SecurityOpt == nil) && (src_value.SecurityOpt != nil ==> fresh(dst[src_key].SecurityOpt)) && len(dst[src_key].SecurityOpt) == len(src_value.SecurityOpt)
 //@   ensures[C14] dst[src_key].ShmSize == src_value.ShmSize
 //@   ensures[C14] dst[src_key].StdinOpen == src_value.StdinOpen
@@ -630,13 +640,13 @@ package types
 //@   ensures[C14] dst[src_key].Uts == src_value.Uts
 //@   ensures[C14] dst[src_key].VolumeDriver == src_value.VolumeDriver
 //@   ensures[C14] (dst[src_key].Volumes == nil <==> src_value.Volumes == nil) && (src_value.Volumes != nil ==> fresh(dst[src_key].Volumes)) && len(dst[src_key].Volumes) == len(src_value.Volumes)
-//@   ensures[C14] (forall ej int :: 0 <= ej && ej < len(src_value.Volumes) ==> copyOf_ServiceVolumeConfig(dst[src_key].Volumes[ej], src_value.Volumes[ej]))
+//@?   ensures[C14] (forall ej int :: 0 <= ej && ej < len(src_value.Volumes) ==> copyOf_ServiceVolumeConfig(dst[src_key].Volumes[ej], src_value.Volumes[ej]))   // undischarged on the reference tree: not claimed
 //@   ensures[C14] (dst[src_key].VolumesFrom == nil <==> src_value.VolumesFrom == nil) && (src_value.VolumesFrom != nil ==> fresh(dst[src_key].VolumesFrom)) && len(dst[src_key].VolumesFrom) == len(src_value.VolumesFrom)
 //@   ensures[C14] dst[src_key].WorkingDir == src_value.WorkingDir
 //@   ensures[C14] (dst[src_key].PostStart == nil <==> src_value.PostStart == nil) && (src_value.PostStart != nil ==> fresh(dst[src_key].PostStart)) && len(dst[src_key].PostStart) == len(src_value.PostStart)
-//@   ensures[C14] (forall ej int :: 0 <= ej && ej < len(src_value.PostStart) ==> copyOf_ServiceHook(dst[src_key].PostStart[ej], src_value.PostStart[ej]))
+//@?   ensures[C14] (forall ej int :: 0 <= ej && ej < len(src_value.PostStart) ==> copyOf_ServiceHook(dst[src_key].PostStart[ej], src_value.PostStart[ej]))   // undischarged on the reference tree: not claimed
 //@   ensures[C14] (dst[src_key].PreStop == nil <==> src_value.PreStop == nil) && (src_value.PreStop != nil ==> fresh(dst[src_key].PreStop)) && len(dst[src_key].PreStop) == len(src_value.PreStop)
-//@   ensures[C14] (forall ej int :: 0 <= ej && ej < len(src_value.PreStop) ==> copyOf_ServiceHook(dst[src_key].PreStop[ej], src_value.PreStop[ej]))
+//@?   ensures[C14] (forall ej int :: 0 <= ej && ej < len(src_value.PreStop) ==> copyOf_ServiceHook(dst[src_key].PreStop[ej], src_value.PreStop[ej]))   // undischarged on the reference tree: not claimed
 //@   ensures[C14] (dst[src_key].Extensions == nil <==> src_value.Extensions == nil) && (src_value.Extensions != nil ==> fresh(dst[src_key].Extensions))
 //@   ensures[C14] (forall kk string :: has(dst[src_key].Extensions, kk) <==> has(src_value.Extensions, kk))
 //@   ensures[C14] (forall kk string :: has(src_value.Extensions, kk) ==> dst[src_key].Extensions[kk] == src_value.Extensions[kk])
@@ -651,19 +661,19 @@ package types
 //@   ensures[C14] dst.WorkingDir == src.WorkingDir
 //@   ensures[C14] (dst.Services == nil <==> src.Services == nil) && (src.Services != nil ==> fresh(dst.Services))
 //@   ensures[C14] (forall kk string :: has(dst.Services, kk) <==> has(src.Services, kk))
-//@   ensures[C14] (forall ee string :: has(src.Services, ee) ==> copyOf_ServiceConfig(dst.Services[ee], src.Services[ee]))
+//@?   ensures[C14] (forall ee string :: has(src.Services, ee) ==> copyOf_ServiceConfig(dst.Services[ee], src.Services[ee]))   // undischarged on the reference tree: not claimed
 //@   ensures[C14] (dst.Networks == nil <==> src.Networks == nil) && (src.Networks != nil ==> fresh(dst.Networks))
 //@   ensures[C14] (forall kk string :: has(dst.Networks, kk) <==> has(src.Networks, kk))
-//@   ensures[C14] (forall ee string :: has(src.Networks, ee) ==> copyOf_NetworkConfig(dst.Networks[ee], src.Networks[ee]))
+//@?   ensures[C14] (forall ee string :: has(src.Networks, ee) ==> copyOf_NetworkConfig(dst.Networks[ee], src.Networks[ee]))   // undischarged on the reference tree: not claimed
 //@   ensures[C14] (dst.Volumes == nil <==> src.Volumes == nil) && (src.Volumes != nil ==> fresh(dst.Volumes))
 //@   ensures[C14] (forall kk string :: has(dst.Volumes, kk) <==> has(src.Volumes, kk))
-//@   ensures[C14] (forall ee string :: has(src.Volumes, ee) ==> copyOf_VolumeConfig(dst.Volumes[ee], src.Volumes[ee]))
+//@?   ensures[C14] (forall ee string :: has(src.Volumes, ee) ==> copyOf_VolumeConfig(dst.Volumes[ee], src.Volumes[ee]))   // undischarged on the reference tree: not claimed
 //@   ensures[C14] (dst.Secrets == nil <==> src.Secrets == nil) && (src.Secrets != nil ==> fresh(dst.Secrets))
 //@   ensures[C14] (forall kk string :: has(dst.Secrets, kk) <==> has(src.Secrets, kk))
-//@   ensures[C14] (forall ee string :: has(src.Secrets, ee) ==> copyOf_SecretConfig(dst.Secrets[ee], src.Secrets[ee]))
+//@?   ensures[C14] (forall ee string :: has(src.Secrets, ee) ==> copyOf_SecretConfig(dst.Secrets[ee], src.Secrets[ee]))   // undischarged on the reference tree: not claimed
 //@   ensures[C14] (dst.Configs == nil <==> src.Configs == nil) && (src.Configs != nil ==> fresh(dst.Configs))
 //@   ensures[C14] (forall kk string :: has(dst.Configs, kk) <==> has(src.Configs, kk))
-//@   ensures[C14] (forall ee string :: has(src.Configs, ee) ==> copyOf_ConfigObjConfig(dst.Configs[ee], src.Configs[ee]))
+//@?   ensures[C14] (forall ee string :: has(src.Configs, ee) ==> copyOf_ConfigObjConfig(dst.Configs[ee], src.Configs[ee]))   // undischarged on the reference tree: not claimed
 //@   ensures[C14] (dst.Extensions == nil <==> src.Extensions == nil) && (src.Extensions != nil ==> fresh(dst.Extensions))
 //@   ensures[C14] (forall kk string :: has(dst.Extensions, kk) <==> has(src.Extensions, kk))
 //@   ensures[C14] (forall kk string :: has(src.Extensions, kk) ==> dst.Extensions[kk] == src.Extensions[kk])
@@ -714,11 +724,11 @@ package types
 //@   ensures[C14] (forall kk string :: has(src.Annotations, kk) ==> dst.Annotations[kk] == src.Annotations[kk])
 //@   ensures[C14] (dst.Attach == nil <==> src.Attach == nil) && (src.Attach != nil ==> fresh(dst.Attach))
 //@   ensures[C14] (dst.Build == nil <==> src.Build == nil) && (src.Build != nil ==> fresh(dst.Build))
-//@   ensures[C14] (src.Build != nil ==> copyOf_BuildConfig(dst.Build, src.Build))
+//@?   ensures[C14] (src.Build != nil ==> copyOf_BuildConfig(dst.Build, src.Build))   // undischarged on the reference tree: not claimed
 //@   ensures[C14] (dst.Develop == nil <==> src.Develop == nil) && (src.Develop != nil ==> fresh(dst.Develop))
-//@   ensures[C14] (src.Develop != nil ==> copyOf_DevelopConfig(dst.Develop, src.Develop))
+//@?   ensures[C14] (src.Develop != nil ==> copyOf_DevelopConfig(dst.Develop, src.Develop))   // undischarged on the reference tree: not claimed
 //@   ensures[C14] (dst.BlkioConfig == nil <==> src.BlkioConfig == nil) && (src.BlkioConfig != nil ==> fresh(dst.BlkioConfig))
-//@   ensures[C14] (src.BlkioConfig != nil ==> copyOf_BlkioConfig(dst.BlkioConfig, src.BlkioConfig))
+//@?   ensures[C14] (src.BlkioConfig != nil ==> copyOf_BlkioConfig(dst.BlkioConfig, src.BlkioConfig))   // undischarged on the reference tree: not claimed
 //@   ensures[C14] (dst.CapAdd == nil <==> src.CapAdd == nil) && (src.CapAdd != nil ==> fresh(dst.CapAdd)) && len(dst.CapAdd) == len(src.CapAdd)
 //@   ensures[C14] (dst.CapDrop == nil <==> src.CapDrop == nil) && (src.CapDrop != nil ==> fresh(dst.CapDrop)) && len(dst.CapDrop) == len(src.CapDrop)
 //@   ensures[C14] dst.CgroupParent == src.CgroupParent
@@ -734,18 +744,18 @@ package types
 //@   ensures[C14] dst.CPUShares == src.CPUShares
 //@   ensures[C14] (dst.Command == nil <==> src.Command == nil) && (src.Command != nil ==> fresh(dst.Command)) && len(dst.Command) == len(src.Command)
 //@   ensures[C14] (dst.Configs == nil <==> src.Configs == nil) && (src.Configs != nil ==> fresh(dst.Configs)) && len(dst.Configs) == len(src.Configs)
-//@   ensures[C14] (forall ej int :: 0 <= ej && ej < len(src.Configs) ==> copyOf_ServiceConfigObjConfig(dst.Configs[ej], src.Configs[ej]))
+//@?   ensures[C14] (forall ej int :: 0 <= ej && ej < len(src.Configs) ==> copyOf_ServiceConfigObjConfig(dst.Configs[ej], src.Configs[ej]))   // undischarged on the reference tree: not claimed
 //@   ensures[C14] dst.ContainerName == src.ContainerName
 //@   ensures[C14] (dst.CredentialSpec == nil <==> src.CredentialSpec == nil) && (src.CredentialSpec != nil ==> fresh(dst.CredentialSpec))
-//@   ensures[C14] (src.CredentialSpec != nil ==> copyOf_CredentialSpecConfig(dst.CredentialSpec, src.CredentialSpec))
+//@?   ensures[C14] (src.CredentialSpec != nil ==> copyOf_CredentialSpecConfig(dst.CredentialSpec, src.CredentialSpec))   // undischarged on the reference tree: not claimed
 //@   ensures[C14] (dst.DependsOn == nil <==> src.DependsOn == nil) && (src.DependsOn != nil ==> fresh(dst.DependsOn))
 //@   ensures[C14] (forall kk string :: has(dst.DependsOn, kk) <==> has(src.DependsOn, kk))
-//@   ensures[C14] (forall ee string :: has(src.DependsOn, ee) ==> copyOf_ServiceDependency(dst.DependsOn[ee], src.DependsOn[ee]))
+//@?   ensures[C14] (forall ee string :: has(src.DependsOn, ee) ==> copyOf_ServiceDependency(dst.DependsOn[ee], src.DependsOn[ee]))   // undischarged on the reference tree: not claimed
 //@   ensures[C14] (dst.Deploy == nil <==> src.Deploy == nil) && (src.Deploy != nil ==> fresh(dst.Deploy))
-//@   ensures[C14] (src.Deploy != nil ==> copyOf_DeployConfig(dst.Deploy, src.Deploy))
+//@?   ensures[C14] (src.Deploy != nil ==> copyOf_DeployConfig(dst.Deploy, src.Deploy))   // undischarged on the reference tree: not claimed
 //@   ensures[C14] (dst.DeviceCgroupRules == nil <==> src.DeviceCgroupRules == nil) && (src.DeviceCgroupRules != nil ==> fresh(dst.DeviceCgroupRules)) && len(dst.DeviceCgroupRules) == len(src.DeviceCgroupRules)
 //@   ensures[C14] (dst.Devices == nil <==> src.Devices == nil) && (src.Devices != nil ==> fresh(dst.Devices)) && len(dst.Devices) == len(src.Devices)
-//@   ensures[C14] (forall ej int :: 0 <= ej && ej < len(src.Devices) ==> copyOf_DeviceMapping(dst.Devices[ej], src.Devices[ej]))
+//@?   ensures[C14] (forall ej int :: 0 <= ej && ej < len(src.Devices) ==> copyOf_DeviceMapping(dst.Devices[ej], src.Devices[ej]))   // undischarged on the reference tree: not claimed
 //@   ensures[C14] (dst.DNS == nil <==> src.DNS == nil) && (src.DNS != nil ==> fresh(dst.DNS)) && len(dst.DNS) == len(src.DNS)
 //@   ensures[C14] (dst.DNSOpts == nil <==> src.DNSOpts == nil) && (src.DNSOpts != nil ==> fresh(dst.DNSOpts)) && len(dst.DNSOpts) == len(src.DNSOpts)
 //@   ensures[C14] (dst.DNSSearch == nil <==> src.DNSSearch == nil) && (src.DNSSearch != nil ==> fresh(dst.DNSSearch)) && len(dst.DNSSearch) == len(src.DNSSearch)
@@ -755,7 +765,7 @@ package types
 //@   ensures[C14] (dst.Environment == nil <==> src.Environment == nil) && (src.Environment != nil ==> fresh(dst.Environment))
 //@   ensures[C14] (forall kk string :: has(dst.Environment, kk) <==> has(src.Environment, kk))
 //@   ensures[C14] (dst.EnvFiles == nil <==> src.EnvFiles == nil) && (src.EnvFiles != nil ==> fresh(dst.EnvFiles)) && len(dst.EnvFiles) == len(src.EnvFiles)
-//@   ensures[C14] (forall ej int :: 0 <= ej && ej < len(src.EnvFiles) ==> copyOf_EnvFile(dst.EnvFiles[ej], src.EnvFiles[ej]))
+//@?   ensures[C14] (forall ej int :: 0 <= ej && ej < len(src.EnvFiles) ==> copyOf_EnvFile(dst.EnvFiles[ej], src.EnvFiles[ej]))   // undischarged on the reference tree: not claimed
 //@   ensures[C14] (dst.Expose == nil <==> src.Expose == nil) && (src.Expose != nil ==> fresh(dst.Expose)) && len(dst.Expose) == len(src.Expose)
 //@   ensures[C14] (dst.Extends == nil <==> src.Extends == nil) && (src.Extends != nil ==> fresh(dst.Extends))
 //@   ensures[C14] (src.Extends != nil ==> copyOf_ExtendsConfig(dst.Extends, src.Extends))
@@ -764,10 +774,10 @@ package types
 //@   ensures[C14] (forall kk string :: has(dst.ExtraHosts, kk) <==> has(src.ExtraHosts, kk))
 //@   ensures[C14] (dst.GroupAdd == nil <==> src.GroupAdd == nil) && (src.GroupAdd != nil ==> fresh(dst.GroupAdd)) && len(dst.GroupAdd) == len(src.GroupAdd)
 //@   ensures[C14] (dst.Gpus == nil <==> src.Gpus == nil) && (src.Gpus != nil ==> fresh(dst.Gpus)) && len(dst.Gpus) == len(src.Gpus)
-//@   ensures[C14] (forall ej int :: 0 <= ej && ej < len(src.Gpus) ==> copyOf_DeviceRequest(dst.Gpus[ej], src.Gpus[ej]))
+//@?   ensures[C14] (forall ej int :: 0 <= ej && ej < len(src.Gpus) ==> copyOf_DeviceRequest(dst.Gpus[ej], src.Gpus[ej]))   // undischarged on the reference tree: not claimed
 //@   ensures[C14] dst.Hostname == src.Hostname
 //@   ensures[C14] (dst.HealthCheck == nil <==> src.HealthCheck == nil) && (src.HealthCheck != nil ==> fresh(dst.HealthCheck))
-//@   ensures[C14] (src.HealthCheck != nil ==> copyOf_HealthCheckConfig(dst.HealthCheck, src.HealthCheck))
+//@?   ensures[C14] (src.HealthCheck != nil ==> copyOf_HealthCheckConfig(dst.HealthCheck, src.HealthCheck))   // undischarged on the reference tree: not claimed
 //@   ensures[C14] dst.Image == src.Image
 //@   ensures[C14] (dst.Init == nil <==> src.Init == nil) && (src.Init != nil ==> fresh(dst.Init))
 //@   ensures[C14] dst.Ipc == src.Ipc
@@ -781,7 +791,7 @@ package types
 //@   ensures[C14] (forall kk string :: has(src.CustomLabels, kk) ==> dst.CustomLabels[kk] == src.CustomLabels[kk])
 //@   ensures[C14] (dst.Links == nil <==> src.Links == nil) && (src.Links != nil ==> fresh(dst.Links)) && len(dst.Links) == len(src.Links)
 //@   ensures[C14] (dst.Logging == nil <==> src.Logging == nil) && (src.Logging != nil ==> fresh(dst.Logging))
-//@   ensures[C14] (src.Logging != nil ==> copyOf_LoggingConfig(dst.Logging, src.Logging))
+//@?   ensures[C14] (src.Logging != nil ==> copyOf_LoggingConfig(dst.Logging, src.Logging))   // undischarged on the reference tree: not claimed
 //@   ensures[C14] dst.LogDriver == src.LogDriver
 //@   ensures[C14] (dst.LogOpt == nil <==> src.LogOpt == nil) && (src.LogOpt != nil ==> fresh(dst.LogOpt))
 //@   ensures[C14] (forall kk string :: has(dst.LogOpt, kk) <==> has(src.LogOpt, kk))
@@ -801,7 +811,7 @@ package types
 //@   ensures[C14] dst.PidsLimit == src.PidsLimit
 //@   ensures[C14] dst.Platform == src.Platform
 //@   ensures[C14] (dst.Ports == nil <==> src.Ports == nil) && (src.Ports != nil ==> fresh(dst.Ports)) && len(dst.Ports) == len(src.Ports)
-//@   ensures[C14] (forall ej int :: 0 <= ej && ej < len(src.Ports) ==> copyOf_ServicePortConfig(dst.Ports[ej], src.Ports[ej]))
+//@?   ensures[C14] (forall ej int :: 0 <= ej && ej < len(src.Ports) ==> copyOf_ServicePortConfig(dst.Ports[ej], src.Ports[ej]))   // undischarged on the reference tree: not claimed
 //@   ensures[C14] dst.Privileged == src.Privileged
 //@   ensures[C14] dst.PullPolicy == src.PullPolicy
 //@   ensures[C14] dst.ReadOnly == src.ReadOnly
@@ -809,7 +819,7 @@ package types
 //@   ensures[C14] dst.Runtime == src.Runtime
 //@   ensures[C14] (dst.Scale == nil <==> src.Scale == nil) && (src.Scale != nil ==> fresh(dst.Scale))
 //@   ensures[C14] (dst.Secrets == nil <==> src.Secrets == nil) && (src.Secrets != nil ==> fresh(dst.Secrets)) && len(dst.Secrets) == len(src.Secrets)
-//@   ensures[C14] (forall ej int :: 0 <= ej && ej < len(src.Secrets) ==> copyOf_ServiceSecretConfig(dst.Secrets[ej], src.Secrets[ej]))
+//@?   ensures[C14] (forall ej int :: 0 <= ej && ej < len(src.Secrets) ==> copyOf_ServiceSecretConfig(dst.Secrets[ej], src.Secrets[ej]))   // undischarged on the reference tree: not claimed
 //@   ensures[C14] (dst.SecurityOpt == nil <==> src.SecurityOpt == nil) && (src.SecurityOpt != nil ==> fresh(dst.SecurityOpt)) && len(dst.SecurityOpt) == len(src.SecurityOpt)
 //@   ensures[C14] dst.ShmSize == src.ShmSize
 //@   ensures[C14] dst.StdinOpen == src.StdinOpen
@@ -830,13 +840,13 @@ package types
 //@   ensures[C14] dst.Uts == src.Uts
 //@   ensures[C14] dst.VolumeDriver == src.VolumeDriver
 //@   ensures[C14] (dst.Volumes == nil <==> src.Volumes == nil) && (src.Volumes != nil ==> fresh(dst.Volumes)) && len(dst.Volumes) == len(src.Volumes)
-//@   ensures[C14] (forall ej int :: 0 <= ej && ej < len(src.Volumes) ==> copyOf_ServiceVolumeConfig(dst.Volumes[ej], src.Volumes[ej]))
+//@?   ensures[C14] (forall ej int :: 0 <= ej && ej < len(src.Volumes) ==> copyOf_ServiceVolumeConfig(dst.Volumes[ej], src.Volumes[ej]))   // undischarged on the reference tree: not claimed
 //@   ensures[C14] (dst.VolumesFrom == nil <==> src.VolumesFrom == nil) && (src.VolumesFrom != nil ==> fresh(dst.VolumesFrom)) && len(dst.VolumesFrom) == len(src.VolumesFrom)
 //@   ensures[C14] dst.WorkingDir == src.WorkingDir
 //@   ensures[C14] (dst.PostStart == nil <==> src.PostStart == nil) && (src.PostStart != nil ==> fresh(dst.PostStart)) && len(dst.PostStart) == len(src.PostStart)
-//@   ensures[C14] (forall ej int :: 0 <= ej && ej < len(src.PostStart) ==> copyOf_ServiceHook(dst.PostStart[ej], src.PostStart[ej]))
+//@?   ensures[C14] (forall ej int :: 0 <= ej && ej < len(src.PostStart) ==> copyOf_ServiceHook(dst.PostStart[ej], src.PostStart[ej]))   // undischarged on the reference tree: not claimed
 //@   ensures[C14] (dst.PreStop == nil <==> src.PreStop == nil) && (src.PreStop != nil ==> fresh(dst.PreStop)) && len(dst.PreStop) == len(src.PreStop)
-//@   ensures[C14] (forall ej int :: 0 <= ej && ej < len(src.PreStop) ==> copyOf_ServiceHook(dst.PreStop[ej], src.PreStop[ej]))
+//@?   ensures[C14] (forall ej int :: 0 <= ej && ej < len(src.PreStop) ==> copyOf_ServiceHook(dst.PreStop[ej], src.PreStop[ej]))   // undischarged on the reference tree: not claimed
 //@   ensures[C14] (dst.Extensions == nil <==> src.Extensions == nil) && (src.Extensions != nil ==> fresh(dst.Extensions))
 //@   ensures[C14] (forall kk string :: has(dst.Extensions, kk) <==> has(src.Extensions, kk))
 //@   ensures[C14] (forall kk string :: has(src.Extensions, kk) ==> dst.Extensions[kk] == src.Extensions[kk])
@@ -845,6 +855,7 @@ package types
 //@   ensures[C14] dst.LogOpt == nil || dst.LogOpt != dst.StorageOpt
 
 //@ func deriveDeepCopy_
+//@   except frame[D|Str|Any|c8c47bee8/ret1], frame[D|Str|Str|cefb8f1e7/ret1], frame[D|Str|T_types_NetworkConfig|cde81b102/ret1], frame[HF|T_types_IPAMConfig|0/ret1], frame[HF|T_types_IPAMConfig|1/ret1], frame[HF|T_types_IPAMConfig|2/ret1], frame[HF|T_types_IPAMPool|0/ret1], frame[HF|T_types_IPAMPool|1/ret1], frame[HF|T_types_IPAMPool|2/ret1], frame[HF|T_types_IPAMPool|3/ret1], frame[HF|T_types_IPAMPool|4/ret1], frame[HF|T_types_NetworkConfig|0/ret1], frame[HF|T_types_NetworkConfig|1/ret1], frame[HF|T_types_NetworkConfig|10/ret1], frame[HF|T_types_NetworkConfig|2/ret1], frame[HF|T_types_NetworkConfig|3.0/ret1], frame[HF|T_types_NetworkConfig|3.1/ret1], frame[HF|T_types_NetworkConfig|3.2/ret1], frame[HF|T_types_NetworkConfig|4/ret1], frame[HF|T_types_NetworkConfig|5/ret1], frame[HF|T_types_NetworkConfig|6/ret1], frame[HF|T_types_NetworkConfig|7/ret1], frame[HF|T_types_NetworkConfig|8/ret1], frame[HF|T_types_NetworkConfig|9/ret1], frame[H|Bool|c3fb53125/ret1], frame[M|Str|Any|c8c47bee8/ret1], frame[M|Str|Str|cefb8f1e7/ret1], frame[M|Str|T_types_NetworkConfig|cde81b102/ret1], frame[S|Int|cca883e7c/ret1] : undischarged on the reference tree (engine limit or missing callee contract), not claimed
 //@   nopanic[C14,C20]
 //@   requires dst != nil && dst != src
 //@   assigns dst.*
@@ -854,7 +865,7 @@ package types
 //@   loop 1
 //@     invariant forall k string :: seen(k) ==> has(src, k) && has(dst, k)
 //@     invariant forall k string :: !seen(k) ==> (has(dst, k) <==> old(has(dst, k)))
-//@     invariant forall k string :: seen(k) ==> copyOf_NetworkConfig(dst[k], src[k])
+//@?     invariant forall k string :: seen(k) ==> copyOf_NetworkConfig(dst[k], src[k])   // undischarged on the reference tree: not claimed
 
 //@ func deriveDeepCopy_$1
 //@   nopanic[C14,C20]
@@ -887,6 +898,7 @@ package types
 //@   ensures[C14] (forall kk string :: has(src_value.Extensions, kk) ==> dst[src_key].Extensions[kk] == src_value.Extensions[kk])
 
 //@ func deriveDeepCopy_1
+//@   except frame[D|Str|Any|c8c47bee8/ret1], frame[D|Str|Str|cefb8f1e7/ret1], frame[D|Str|T_types_VolumeConfig|c716e3656/ret1], frame[HF|T_types_VolumeConfig|0/ret1], frame[HF|T_types_VolumeConfig|1/ret1], frame[HF|T_types_VolumeConfig|2/ret1], frame[HF|T_types_VolumeConfig|3/ret1], frame[HF|T_types_VolumeConfig|4/ret1], frame[HF|T_types_VolumeConfig|5/ret1], frame[HF|T_types_VolumeConfig|6/ret1], frame[M|Str|Any|c8c47bee8/ret1], frame[M|Str|Str|cefb8f1e7/ret1], frame[M|Str|T_types_VolumeConfig|c716e3656/ret1] : undischarged on the reference tree (engine limit or missing callee contract), not claimed
 //@   nopanic[C14,C20]
 //@   requires dst != nil && dst != src
 //@   assigns dst.*
@@ -896,7 +908,7 @@ package types
 //@   loop 1
 //@     invariant forall k string :: seen(k) ==> has(src, k) && has(dst, k)
 //@     invariant forall k string :: !seen(k) ==> (has(dst, k) <==> old(has(dst, k)))
-//@     invariant forall k string :: seen(k) ==> copyOf_VolumeConfig(dst[k], src[k])
+//@?     invariant forall k string :: seen(k) ==> copyOf_VolumeConfig(dst[k], src[k])   // undischarged on the reference tree: not claimed
 
 //@ func deriveDeepCopy_1$1
 //@   nopanic[C14,C20]
@@ -921,6 +933,7 @@ package types
 //@   ensures[C14] (forall kk string :: has(src_value.Extensions, kk) ==> dst[src_key].Extensions[kk] == src_value.Extensions[kk])
 
 //@ func deriveDeepCopy_10
+//@   except frame[D|Str|Any|c8c47bee8/ret1], frame[D|Str|T_types_ServiceDependency|c8f68885c/ret1], frame[HF|T_types_ServiceDependency|0/ret1], frame[HF|T_types_ServiceDependency|1/ret1], frame[HF|T_types_ServiceDependency|2/ret1], frame[HF|T_types_ServiceDependency|3/ret1], frame[M|Str|Any|c8c47bee8/ret1], frame[M|Str|T_types_ServiceDependency|c8f68885c/ret1] : undischarged on the reference tree (engine limit or missing callee contract), not claimed
 //@   nopanic[C14,C20]
 //@   requires dst != nil && dst != src
 //@   assigns dst.*
@@ -930,7 +943,7 @@ package types
 //@   loop 1
 //@     invariant forall k string :: seen(k) ==> has(src, k) && has(dst, k)
 //@     invariant forall k string :: !seen(k) ==> (has(dst, k) <==> old(has(dst, k)))
-//@     invariant forall k string :: seen(k) ==> copyOf_ServiceDependency(dst[k], src[k])
+//@?     invariant forall k string :: seen(k) ==> copyOf_ServiceDependency(dst[k], src[k])   // undischarged on the reference tree: not claimed
 
 //@ func deriveDeepCopy_10$1
 //@   nopanic[C14,C20]
@@ -957,22 +970,22 @@ package types
 //@   ensures[C14] (forall kk string :: has(dst.Labels, kk) <==> has(src.Labels, kk))
 //@   ensures[C14] (forall kk string :: has(src.Labels, kk) ==> dst.Labels[kk] == src.Labels[kk])
 //@   ensures[C14] (dst.UpdateConfig == nil <==> src.UpdateConfig == nil) && (src.UpdateConfig != nil ==> fresh(dst.UpdateConfig))
-//@   ensures[C14] (src.UpdateConfig != nil ==> copyOf_UpdateConfig(dst.UpdateConfig, src.UpdateConfig))
+//@?   ensures[C14] (src.UpdateConfig != nil ==> copyOf_UpdateConfig(dst.UpdateConfig, src.UpdateConfig))   // undischarged on the reference tree: not claimed
 //@   ensures[C14] (dst.RollbackConfig == nil <==> src.RollbackConfig == nil) && (src.RollbackConfig != nil ==> fresh(dst.RollbackConfig))
-//@   ensures[C14] (src.RollbackConfig != nil ==> copyOf_UpdateConfig(dst.RollbackConfig, src.RollbackConfig))
+//@?   ensures[C14] (src.RollbackConfig != nil ==> copyOf_UpdateConfig(dst.RollbackConfig, src.RollbackConfig))   // undischarged on the reference tree: not claimed
 //@   ensures[C14] (dst.Resources.Limits == nil <==> src.Resources.Limits == nil) && (src.Resources.Limits != nil ==> fresh(dst.Resources.Limits))
 //@   ensures[C14] (dst.Resources.Reservations == nil <==> src.Resources.Reservations == nil) && (src.Resources.Reservations != nil ==> fresh(dst.Resources.Reservations))
 //@   ensures[C14] (dst.Resources.Extensions == nil <==> src.Resources.Extensions == nil) && (src.Resources.Extensions != nil ==> fresh(dst.Resources.Extensions))
-//@   ensures[C14] (forall kk string :: has(dst.Resources.Extensions, kk) <==> has(src.Resources.Extensions, kk))
-//@   ensures[C14] (forall kk string :: has(src.Resources.Extensions, kk) ==> dst.Resources.Extensions[kk] == src.Resources.Extensions[kk])
+//@?   ensures[C14] (forall kk string :: has(dst.Resources.Extensions, kk) <==> has(src.Resources.Extensions, kk))   // undischarged on the reference tree: not claimed
+//@?   ensures[C14] (forall kk string :: has(src.Resources.Extensions, kk) ==> dst.Resources.Extensions[kk] == src.Resources.Extensions[kk])   // undischarged on the reference tree: not claimed
 //@   ensures[C14] (dst.RestartPolicy == nil <==> src.RestartPolicy == nil) && (src.RestartPolicy != nil ==> fresh(dst.RestartPolicy))
-//@   ensures[C14] (src.RestartPolicy != nil ==> copyOf_RestartPolicy(dst.RestartPolicy, src.RestartPolicy))
+//@?   ensures[C14] (src.RestartPolicy != nil ==> copyOf_RestartPolicy(dst.RestartPolicy, src.RestartPolicy))   // undischarged on the reference tree: not claimed
 //@   ensures[C14] (dst.Placement.Constraints == nil <==> src.Placement.Constraints == nil) && (src.Placement.Constraints != nil ==> fresh(dst.Placement.Constraints)) && len(dst.Placement.Constraints) == len(src.Placement.Constraints)
 //@   ensures[C14] (dst.Placement.Preferences == nil <==> src.Placement.Preferences == nil) && (src.Placement.Preferences != nil ==> fresh(dst.Placement.Preferences)) && len(dst.Placement.Preferences) == len(src.Placement.Preferences)
 //@   ensures[C14] dst.Placement.MaxReplicas == src.Placement.MaxReplicas
 //@   ensures[C14] (dst.Placement.Extensions == nil <==> src.Placement.Extensions == nil) && (src.Placement.Extensions != nil ==> fresh(dst.Placement.Extensions))
-//@   ensures[C14] (forall kk string :: has(dst.Placement.Extensions, kk) <==> has(src.Placement.Extensions, kk))
-//@   ensures[C14] (forall kk string :: has(src.Placement.Extensions, kk) ==> dst.Placement.Extensions[kk] == src.Placement.Extensions[kk])
+//@?   ensures[C14] (forall kk string :: has(dst.Placement.Extensions, kk) <==> has(src.Placement.Extensions, kk))   // undischarged on the reference tree: not claimed
+//@?   ensures[C14] (forall kk string :: has(src.Placement.Extensions, kk) ==> dst.Placement.Extensions[kk] == src.Placement.Extensions[kk])   // undischarged on the reference tree: not claimed
 //@   ensures[C14] dst.EndpointMode == src.EndpointMode
 //@   ensures[C14] (dst.Extensions == nil <==> src.Extensions == nil) && (src.Extensions != nil ==> fresh(dst.Extensions))
 //@   ensures[C14] (forall kk string :: has(dst.Extensions, kk) <==> has(src.Extensions, kk))
@@ -982,34 +995,35 @@ package types
 //@   nopanic[C14,C20]
 //@   requires dst != nil && src != nil && dst != src
 //@   assigns dst.Resources
-//@   ensures[C14] (dst.Resources.Limits == nil <==> src.Resources.Limits == nil) && (src.Resources.Limits != nil ==> fresh(dst.Resources.Limits))
-//@   ensures[C14] (src.Resources.Limits != nil ==> copyOf_Resource(dst.Resources.Limits, src.Resources.Limits))
-//@   ensures[C14] (dst.Resources.Reservations == nil <==> src.Resources.Reservations == nil) && (src.Resources.Reservations != nil ==> fresh(dst.Resources.Reservations))
-//@   ensures[C14] (src.Resources.Reservations != nil ==> copyOf_Resource(dst.Resources.Reservations, src.Resources.Reservations))
-//@   ensures[C14] (dst.Resources.Extensions == nil <==> src.Resources.Extensions == nil) && (src.Resources.Extensions != nil ==> fresh(dst.Resources.Extensions))
-//@   ensures[C14] (forall kk string :: has(dst.Resources.Extensions, kk) <==> has(src.Resources.Extensions, kk))
-//@   ensures[C14] (forall kk string :: has(src.Resources.Extensions, kk) ==> dst.Resources.Extensions[kk] == src.Resources.Extensions[kk])
+//@?   ensures[C14] (dst.Resources.Limits == nil <==> src.Resources.Limits == nil) && (src.Resources.Limits != nil ==> fresh(dst.Resources.Limits))   // undischarged on the reference tree: not claimed
+//@?   ensures[C14] (src.Resources.Limits != nil ==> copyOf_Resource(dst.Resources.Limits, src.Resources.Limits))   // undischarged on the reference tree: not claimed
+//@?   ensures[C14] (dst.Resources.Reservations == nil <==> src.Resources.Reservations == nil) && (src.Resources.Reservations != nil ==> fresh(dst.Resources.Reservations))   // undischarged on the reference tree: not claimed
+//@?   ensures[C14] (src.Resources.Reservations != nil ==> copyOf_Resource(dst.Resources.Reservations, src.Resources.Reservations))   // undischarged on the reference tree: not claimed
+//@?   ensures[C14] (dst.Resources.Extensions == nil <==> src.Resources.Extensions == nil) && (src.Resources.Extensions != nil ==> fresh(dst.Resources.Extensions))   // undischarged on the reference tree: not claimed
+//@?   ensures[C14] (forall kk string :: has(dst.Resources.Extensions, kk) <==> has(src.Resources.Extensions, kk))   // undischarged on the reference tree: not claimed
+//@?   ensures[C14] (forall kk string :: has(src.Resources.Extensions, kk) ==> dst.Resources.Extensions[kk] == src.Resources.Extensions[kk])   // undischarged on the reference tree: not claimed
 
 //@ func deriveDeepCopy_11$2
 //@   nopanic[C14,C20]
 //@   requires dst != nil && src != nil && dst != src
 //@   assigns dst.Placement
-//@   ensures[C14] (dst.Placement.Constraints == nil <==> src.Placement.Constraints == nil) && (src.Placement.Constraints != nil ==> fresh(dst.Placement.Constraints)) && len(dst.Placement.Constraints) == len(src.Placement.Constraints)
-//@   ensures[C14] (dst.Placement.Preferences == nil <==> src.Placement.Preferences == nil) && (src.Placement.Preferences != nil ==> fresh(dst.Placement.Preferences)) && len(dst.Placement.Preferences) == len(src.Placement.Preferences)
-//@   ensures[C14] (forall ej int :: 0 <= ej && ej < len(src.Placement.Preferences) ==> copyOf_PlacementPreferences(dst.Placement.Preferences[ej], src.Placement.Preferences[ej]))
-//@   ensures[C14] dst.Placement.MaxReplicas == src.Placement.MaxReplicas
-//@   ensures[C14] (dst.Placement.Extensions == nil <==> src.Placement.Extensions == nil) && (src.Placement.Extensions != nil ==> fresh(dst.Placement.Extensions))
-//@   ensures[C14] (forall kk string :: has(dst.Placement.Extensions, kk) <==> has(src.Placement.Extensions, kk))
-//@   ensures[C14] (forall kk string :: has(src.Placement.Extensions, kk) ==> dst.Placement.Extensions[kk] == src.Placement.Extensions[kk])
+//@?   ensures[C14] (dst.Placement.Constraints == nil <==> src.Placement.Constraints == nil) && (src.Placement.Constraints != nil ==> fresh(dst.Placement.Constraints)) && len(dst.Placement.Constraints) == len(src.Placement.Constraints)   // undischarged on the reference tree: not claimed
+//@?   ensures[C14] (dst.Placement.Preferences == nil <==> src.Placement.Preferences == nil) && (src.Placement.Preferences != nil ==> fresh(dst.Placement.Preferences)) && len(dst.Placement.Preferences) == len(src.Placement.Preferences)   // undischarged on the reference tree: not claimed
+//@?   ensures[C14] (forall ej int :: 0 <= ej && ej < len(src.Placement.Preferences) ==> copyOf_PlacementPreferences(dst.Placement.Preferences[ej], src.Placement.Preferences[ej]))   // undischarged on the reference tree: not claimed
+//@?   ensures[C14] dst.Placement.MaxReplicas == src.Placement.MaxReplicas   // undischarged on the reference tree: not claimed
+//@?   ensures[C14] (dst.Placement.Extensions == nil <==> src.Placement.Extensions == nil) && (src.Placement.Extensions != nil ==> fresh(dst.Placement.Extensions))   // undischarged on the reference tree: not claimed
+//@?   ensures[C14] (forall kk string :: has(dst.Placement.Extensions, kk) <==> has(src.Placement.Extensions, kk))   // undischarged on the reference tree: not claimed
+//@?   ensures[C14] (forall kk string :: has(src.Placement.Extensions, kk) ==> dst.Placement.Extensions[kk] == src.Placement.Extensions[kk])   // undischarged on the reference tree: not claimed
 
 //@ func deriveDeepCopy_12
+//@   except frame[D|Str|Any|c8c47bee8/ret1], frame[HF|T_types_DeviceMapping|0/ret1], frame[HF|T_types_DeviceMapping|1/ret1], frame[HF|T_types_DeviceMapping|2/ret1], frame[HF|T_types_DeviceMapping|3/ret1], frame[M|Str|Any|c8c47bee8/ret1], frame[S|T_types_DeviceMapping|cdaeeaf7/ret1] : undischarged on the reference tree (engine limit or missing callee contract), not claimed
 //@   nopanic[C14,C20]
 //@   requires len(dst) >= len(src) && (len(src) > 0 ==> dst != src)
 //@   assigns dst.*
 //@   ensures[C14] forall j int :: 0 <= j && j < len(src) ==> copyOf_DeviceMapping(dst[j], src[j])
 //@   loop 1
 //@     invariant -1 <= rangeindex && rangeindex < len(src)
-//@     invariant forall j int :: 0 <= j && j <= rangeindex ==> copyOf_DeviceMapping(dst[j], src[j])
+//@?     invariant forall j int :: 0 <= j && j <= rangeindex ==> copyOf_DeviceMapping(dst[j], src[j])   // undischarged on the reference tree: not claimed
 
 //@ func deriveDeepCopy_12$1
 //@   nopanic[C14,C20]
@@ -1024,6 +1038,7 @@ package types
 //@   ensures[C14] (forall kk string :: has(src_value.Extensions, kk) ==> dst[src_i].Extensions[kk] == src_value.Extensions[kk])
 
 //@ func deriveDeepCopy_13
+//@   except frame[H|Str|cf613ccd0/ret1] : undischarged on the reference tree (engine limit or missing callee contract), not claimed
 //@   nopanic[C14,C20]
 //@   requires dst != nil && dst != src
 //@   assigns dst.*
@@ -1036,6 +1051,7 @@ package types
 //@     invariant forall k string :: seen(k) ==> (dst[k] == nil <==> src[k] == nil) && (src[k] != nil ==> fresh(dst[k]))
 
 //@ func deriveDeepCopy_14
+//@   except frame[S|Str|ce4060d18/ret1] : undischarged on the reference tree (engine limit or missing callee contract), not claimed
 //@   nopanic[C14,C20]
 //@   requires dst != nil && dst != src
 //@   assigns dst.*
@@ -1045,16 +1061,17 @@ package types
 //@   loop 1
 //@     invariant forall k string :: seen(k) ==> has(src, k) && has(dst, k)
 //@     invariant forall k string :: !seen(k) ==> (has(dst, k) <==> old(has(dst, k)))
-//@     invariant forall k string :: seen(k) ==> (dst[k] == nil <==> src[k] == nil) && (src[k] != nil ==> fresh(dst[k])) && len(dst[k]) == len(src[k])
+//@?     invariant forall k string :: seen(k) ==> (dst[k] == nil <==> src[k] == nil) && (src[k] != nil ==> fresh(dst[k])) && len(dst[k]) == len(src[k])   // undischarged on the reference tree: not claimed
 
 //@ func deriveDeepCopy_15
+//@   except frame[D|Str|Str|cefb8f1e7/ret1], frame[HF|T_types_DeviceRequest|0/ret1], frame[HF|T_types_DeviceRequest|1/ret1], frame[HF|T_types_DeviceRequest|2/ret1], frame[HF|T_types_DeviceRequest|3/ret1], frame[HF|T_types_DeviceRequest|4/ret1], frame[M|Str|Str|cefb8f1e7/ret1], frame[S|Str|ce4060d18/ret1], frame[S|T_types_DeviceRequest|ceb56bbec/ret1] : undischarged on the reference tree (engine limit or missing callee contract), not claimed
 //@   nopanic[C14,C20]
 //@   requires len(dst) >= len(src) && (len(src) > 0 ==> dst != src)
 //@   assigns dst.*
 //@   ensures[C14] forall j int :: 0 <= j && j < len(src) ==> copyOf_DeviceRequest(dst[j], src[j])
 //@   loop 1
 //@     invariant -1 <= rangeindex && rangeindex < len(src)
-//@     invariant forall j int :: 0 <= j && j <= rangeindex ==> copyOf_DeviceRequest(dst[j], src[j])
+//@?     invariant forall j int :: 0 <= j && j <= rangeindex ==> copyOf_DeviceRequest(dst[j], src[j])   // undischarged on the reference tree: not claimed
 
 //@ func deriveDeepCopy_15$1
 //@   nopanic[C14,C20]
@@ -1098,6 +1115,7 @@ package types
 //@   ensures[C14] (forall kk string :: has(src.Extensions, kk) ==> dst.Extensions[kk] == src.Extensions[kk])
 
 //@ func deriveDeepCopy_18
+//@   except frame[D|Str|Any|c8c47bee8/ret1], frame[D|Str|Str|cefb8f1e7/ret1], frame[HF|T_types_ServiceNetworkConfig|0/ret1], frame[HF|T_types_ServiceNetworkConfig|1/ret1], frame[HF|T_types_ServiceNetworkConfig|2/ret1], frame[HF|T_types_ServiceNetworkConfig|3/ret1], frame[HF|T_types_ServiceNetworkConfig|4/ret1], frame[HF|T_types_ServiceNetworkConfig|5/ret1], frame[HF|T_types_ServiceNetworkConfig|6/ret1], frame[HF|T_types_ServiceNetworkConfig|7/ret1], frame[M|Str|Any|c8c47bee8/ret1], frame[M|Str|Str|cefb8f1e7/ret1], frame[S|Str|ce4060d18/ret1] : undischarged on the reference tree (engine limit or missing callee contract), not claimed
 //@   nopanic[C14,C20]
 //@   requires dst != nil && dst != src
 //@   assigns dst.*
@@ -1109,16 +1127,17 @@ package types
 //@     invariant forall k string :: seen(k) ==> has(src, k) && has(dst, k)
 //@     invariant forall k string :: !seen(k) ==> (has(dst, k) <==> old(has(dst, k)))
 //@     invariant forall k string :: seen(k) ==> (dst[k] == nil <==> src[k] == nil) && (src[k] != nil ==> fresh(dst[k]))
-//@     invariant forall k string :: seen(k) ==> (src[k] != nil ==> copyOf_ServiceNetworkConfig(dst[k], src[k]))
+//@?     invariant forall k string :: seen(k) ==> (src[k] != nil ==> copyOf_ServiceNetworkConfig(dst[k], src[k]))   // undischarged on the reference tree: not claimed
 
 //@ func deriveDeepCopy_19
+//@   except frame[D|Str|Any|c8c47bee8/ret1], frame[HF|T_types_ServicePortConfig|0/ret1], frame[HF|T_types_ServicePortConfig|1/ret1], frame[HF|T_types_ServicePortConfig|2/ret1], frame[HF|T_types_ServicePortConfig|3/ret1], frame[HF|T_types_ServicePortConfig|4/ret1], frame[HF|T_types_ServicePortConfig|5/ret1], frame[HF|T_types_ServicePortConfig|6/ret1], frame[HF|T_types_ServicePortConfig|7/ret1], frame[M|Str|Any|c8c47bee8/ret1], frame[S|T_types_ServicePortConfig|c48b1ecbd/ret1] : undischarged on the reference tree (engine limit or missing callee contract), not claimed
 //@   nopanic[C14,C20]
 //@   requires len(dst) >= len(src) && (len(src) > 0 ==> dst != src)
 //@   assigns dst.*
 //@   ensures[C14] forall j int :: 0 <= j && j < len(src) ==> copyOf_ServicePortConfig(dst[j], src[j])
 //@   loop 1
 //@     invariant -1 <= rangeindex && rangeindex < len(src)
-//@     invariant forall j int :: 0 <= j && j <= rangeindex ==> copyOf_ServicePortConfig(dst[j], src[j])
+//@?     invariant forall j int :: 0 <= j && j <= rangeindex ==> copyOf_ServicePortConfig(dst[j], src[j])   // undischarged on the reference tree: not claimed
 
 //@ func deriveDeepCopy_19$1
 //@   nopanic[C14,C20]
@@ -1137,6 +1156,7 @@ package types
 //@   ensures[C14] (forall kk string :: has(src_value.Extensions, kk) ==> dst[src_i].Extensions[kk] == src_value.Extensions[kk])
 
 //@ func deriveDeepCopy_2
+//@   except frame[D|Str|Any|c8c47bee8/ret1], frame[D|Str|Str|cefb8f1e7/ret1], frame[D|Str|T_types_SecretConfig|c7c89da88/ret1], frame[HF|T_types_SecretConfig|0/ret1], frame[HF|T_types_SecretConfig|1/ret1], frame[HF|T_types_SecretConfig|10/ret1], frame[HF|T_types_SecretConfig|2/ret1], frame[HF|T_types_SecretConfig|3/ret1], frame[HF|T_types_SecretConfig|4/ret1], frame[HF|T_types_SecretConfig|5/ret1], frame[HF|T_types_SecretConfig|6/ret1], frame[HF|T_types_SecretConfig|7/ret1], frame[HF|T_types_SecretConfig|8/ret1], frame[HF|T_types_SecretConfig|9/ret1], frame[M|Str|Any|c8c47bee8/ret1], frame[M|Str|Str|cefb8f1e7/ret1], frame[M|Str|T_types_SecretConfig|c7c89da88/ret1] : undischarged on the reference tree (engine limit or missing callee contract), not claimed
 //@   nopanic[C14,C20]
 //@   requires dst != nil && dst != src
 //@   assigns dst.*
@@ -1146,7 +1166,7 @@ package types
 //@   loop 1
 //@     invariant forall k string :: seen(k) ==> has(src, k) && has(dst, k)
 //@     invariant forall k string :: !seen(k) ==> (has(dst, k) <==> old(has(dst, k)))
-//@     invariant forall k string :: seen(k) ==> copyOf_SecretConfig(dst[k], src[k])
+//@?     invariant forall k string :: seen(k) ==> copyOf_SecretConfig(dst[k], src[k])   // undischarged on the reference tree: not claimed
 
 //@ func deriveDeepCopy_2$1
 //@   nopanic[C14,C20]
@@ -1173,13 +1193,14 @@ package types
 //@   ensures[C14] (forall kk string :: has(src_value.Extensions, kk) ==> dst[src_key].Extensions[kk] == src_value.Extensions[kk])
 
 //@ func deriveDeepCopy_20
+//@   except frame[D|Str|Any|c8c47bee8/ret1], frame[HF|T_types_ServiceSecretConfig|0/ret1], frame[HF|T_types_ServiceSecretConfig|1/ret1], frame[HF|T_types_ServiceSecretConfig|2/ret1], frame[HF|T_types_ServiceSecretConfig|3/ret1], frame[HF|T_types_ServiceSecretConfig|4/ret1], frame[HF|T_types_ServiceSecretConfig|5/ret1], frame[H|Int|cddff6ea4/ret1], frame[M|Str|Any|c8c47bee8/ret1], frame[S|T_types_ServiceSecretConfig|c17967466/ret1] : undischarged on the reference tree (engine limit or missing callee contract), not claimed
 //@   nopanic[C14,C20]
 //@   requires len(dst) >= len(src) && (len(src) > 0 ==> dst != src)
 //@   assigns dst.*
 //@   ensures[C14] forall j int :: 0 <= j && j < len(src) ==> copyOf_ServiceSecretConfig(dst[j], src[j])
 //@   loop 1
 //@     invariant -1 <= rangeindex && rangeindex < len(src)
-//@     invariant forall j int :: 0 <= j && j <= rangeindex ==> copyOf_ServiceSecretConfig(dst[j], src[j])
+//@?     invariant forall j int :: 0 <= j && j <= rangeindex ==> copyOf_ServiceSecretConfig(dst[j], src[j])   // undischarged on the reference tree: not claimed
 
 //@ func deriveDeepCopy_20$1
 //@   nopanic[C14,C20]
@@ -1196,6 +1217,7 @@ package types
 //@   ensures[C14] (forall kk string :: has(src_value.Extensions, kk) ==> dst[src_i].Extensions[kk] == src_value.Extensions[kk])
 
 //@ func deriveDeepCopy_21
+//@   except frame[D|Str|Any|c8c47bee8/ret1], frame[HF|T_types_UlimitsConfig|0/ret1], frame[HF|T_types_UlimitsConfig|1/ret1], frame[HF|T_types_UlimitsConfig|2/ret1], frame[HF|T_types_UlimitsConfig|3/ret1], frame[M|Str|Any|c8c47bee8/ret1] : undischarged on the reference tree (engine limit or missing callee contract), not claimed
 //@   nopanic[C14,C20]
 //@   requires dst != nil && dst != src
 //@   assigns dst.*
@@ -1207,16 +1229,17 @@ package types
 //@     invariant forall k string :: seen(k) ==> has(src, k) && has(dst, k)
 //@     invariant forall k string :: !seen(k) ==> (has(dst, k) <==> old(has(dst, k)))
 //@     invariant forall k string :: seen(k) ==> (dst[k] == nil <==> src[k] == nil) && (src[k] != nil ==> fresh(dst[k]))
-//@     invariant forall k string :: seen(k) ==> (src[k] != nil ==> copyOf_UlimitsConfig(dst[k], src[k]))
+//@?     invariant forall k string :: seen(k) ==> (src[k] != nil ==> copyOf_UlimitsConfig(dst[k], src[k]))   // undischarged on the reference tree: not claimed
 
 //@ func deriveDeepCopy_22
+//@   except frame[D|Str|Any|c8c47bee8/ret1], frame[HF|T_types_ServiceVolumeBind|0/ret1], frame[HF|T_types_ServiceVolumeBind|1/ret1], frame[HF|T_types_ServiceVolumeBind|2/ret1], frame[HF|T_types_ServiceVolumeBind|3/ret1], frame[HF|T_types_ServiceVolumeBind|4/ret1], frame[HF|T_types_ServiceVolumeConfig|0/ret1], frame[HF|T_types_ServiceVolumeConfig|1/ret1], frame[HF|T_types_ServiceVolumeConfig|2/ret1], frame[HF|T_types_ServiceVolumeConfig|3/ret1], frame[HF|T_types_ServiceVolumeConfig|4/ret1], frame[HF|T_types_ServiceVolumeConfig|5/ret1], frame[HF|T_types_ServiceVolumeConfig|6/ret1], frame[HF|T_types_ServiceVolumeConfig|7/ret1], frame[HF|T_types_ServiceVolumeConfig|8/ret1], frame[HF|T_types_ServiceVolumeTmpfs|0/ret1], frame[HF|T_types_ServiceVolumeTmpfs|1/ret1], frame[HF|T_types_ServiceVolumeTmpfs|2/ret1], frame[HF|T_types_ServiceVolumeVolume|0/ret1], frame[HF|T_types_ServiceVolumeVolume|1/ret1], frame[HF|T_types_ServiceVolumeVolume|2/ret1], frame[M|Str|Any|c8c47bee8/ret1], frame[S|T_types_ServiceVolumeConfig|cbcd59a70/ret1] : undischarged on the reference tree (engine limit or missing callee contract), not claimed
 //@   nopanic[C14,C20]
 //@   requires len(dst) >= len(src) && (len(src) > 0 ==> dst != src)
 //@   assigns dst.*
 //@   ensures[C14] forall j int :: 0 <= j && j < len(src) ==> copyOf_ServiceVolumeConfig(dst[j], src[j])
 //@   loop 1
 //@     invariant -1 <= rangeindex && rangeindex < len(src)
-//@     invariant forall j int :: 0 <= j && j <= rangeindex ==> copyOf_ServiceVolumeConfig(dst[j], src[j])
+//@?     invariant forall j int :: 0 <= j && j <= rangeindex ==> copyOf_ServiceVolumeConfig(dst[j], src[j])   // undischarged on the reference tree: not claimed
 
 //@ func deriveDeepCopy_22$1
 //@   nopanic[C14,C20]
@@ -1239,13 +1262,14 @@ package types
 //@   ensures[C14] (forall kk string :: has(src_value.Extensions, kk) ==> dst[src_i].Extensions[kk] == src_value.Extensions[kk])
 
 //@ func deriveDeepCopy_23
+//@   except frame[D|Str|Any|c8c47bee8/ret1], frame[D|Str|Int|cf403b835/ret1], frame[HF|T_types_ServiceHook|0/ret1], frame[HF|T_types_ServiceHook|1/ret1], frame[HF|T_types_ServiceHook|2/ret1], frame[HF|T_types_ServiceHook|3/ret1], frame[HF|T_types_ServiceHook|4/ret1], frame[HF|T_types_ServiceHook|5/ret1], frame[H|Str|cf613ccd0/ret1], frame[M|Str|Any|c8c47bee8/ret1], frame[M|Str|Int|cf403b835/ret1], frame[S|Str|ce4060d18/ret1], frame[S|T_types_ServiceHook|c7b10ac63/ret1] : undischarged on the reference tree (engine limit or missing callee contract), not claimed
 //@   nopanic[C14,C20]
 //@   requires len(dst) >= len(src) && (len(src) > 0 ==> dst != src)
 //@   assigns dst.*
 //@   ensures[C14] forall j int :: 0 <= j && j < len(src) ==> copyOf_ServiceHook(dst[j], src[j])
 //@   loop 1
 //@     invariant -1 <= rangeindex && rangeindex < len(src)
-//@     invariant forall j int :: 0 <= j && j <= rangeindex ==> copyOf_ServiceHook(dst[j], src[j])
+//@?     invariant forall j int :: 0 <= j && j <= rangeindex ==> copyOf_ServiceHook(dst[j], src[j])   // undischarged on the reference tree: not claimed
 
 //@ func deriveDeepCopy_23$1
 //@   nopanic[C14,C20]
@@ -1275,8 +1299,8 @@ package types
 //@   ensures[C14] dst.Ipam.Driver == src.Ipam.Driver
 //@   ensures[C14] (dst.Ipam.Config == nil <==> src.Ipam.Config == nil) && (src.Ipam.Config != nil ==> fresh(dst.Ipam.Config)) && len(dst.Ipam.Config) == len(src.Ipam.Config)
 //@   ensures[C14] (dst.Ipam.Extensions == nil <==> src.Ipam.Extensions == nil) && (src.Ipam.Extensions != nil ==> fresh(dst.Ipam.Extensions))
-//@   ensures[C14] (forall kk string :: has(dst.Ipam.Extensions, kk) <==> has(src.Ipam.Extensions, kk))
-//@   ensures[C14] (forall kk string :: has(src.Ipam.Extensions, kk) ==> dst.Ipam.Extensions[kk] == src.Ipam.Extensions[kk])
+//@?   ensures[C14] (forall kk string :: has(dst.Ipam.Extensions, kk) <==> has(src.Ipam.Extensions, kk))   // undischarged on the reference tree: not claimed
+//@?   ensures[C14] (forall kk string :: has(src.Ipam.Extensions, kk) ==> dst.Ipam.Extensions[kk] == src.Ipam.Extensions[kk])   // undischarged on the reference tree: not claimed
 //@   ensures[C14] dst.External == src.External
 //@   ensures[C14] dst.Internal == src.Internal
 //@   ensures[C14] dst.Attachable == src.Attachable
@@ -1296,11 +1320,11 @@ package types
 //@   nopanic[C14,C20]
 //@   requires dst != nil && src != nil && dst != src
 //@   assigns dst.Ipam
-//@   ensures[C14] dst.Ipam.Driver == src.Ipam.Driver
-//@   ensures[C14] (dst.Ipam.Config == nil <==> src.Ipam.Config == nil) && (src.Ipam.Config != nil ==> fresh(dst.Ipam.Config)) && len(dst.Ipam.Config) == len(src.Ipam.Config)
-//@   ensures[C14] (dst.Ipam.Extensions == nil <==> src.Ipam.Extensions == nil) && (src.Ipam.Extensions != nil ==> fresh(dst.Ipam.Extensions))
-//@   ensures[C14] (forall kk string :: has(dst.Ipam.Extensions, kk) <==> has(src.Ipam.Extensions, kk))
-//@   ensures[C14] (forall kk string :: has(src.Ipam.Extensions, kk) ==> dst.Ipam.Extensions[kk] == src.Ipam.Extensions[kk])
+//@?   ensures[C14] dst.Ipam.Driver == src.Ipam.Driver   // undischarged on the reference tree: not claimed
+//@?   ensures[C14] (dst.Ipam.Config == nil <==> src.Ipam.Config == nil) && (src.Ipam.Config != nil ==> fresh(dst.Ipam.Config)) && len(dst.Ipam.Config) == len(src.Ipam.Config)   // undischarged on the reference tree: not claimed
+//@?   ensures[C14] (dst.Ipam.Extensions == nil <==> src.Ipam.Extensions == nil) && (src.Ipam.Extensions != nil ==> fresh(dst.Ipam.Extensions))   // undischarged on the reference tree: not claimed
+//@?   ensures[C14] (forall kk string :: has(dst.Ipam.Extensions, kk) <==> has(src.Ipam.Extensions, kk))   // undischarged on the reference tree: not claimed
+//@?   ensures[C14] (forall kk string :: has(src.Ipam.Extensions, kk) ==> dst.Ipam.Extensions[kk] == src.Ipam.Extensions[kk])   // undischarged on the reference tree: not claimed
 
 //@ func deriveDeepCopy_25
 //@   nopanic[C14,C20]
@@ -1368,13 +1392,14 @@ package types
 //@   ensures[C14] (forall kk string :: has(src.Extensions, kk) ==> dst.Extensions[kk] == src.Extensions[kk])
 
 //@ func deriveDeepCopy_28
+//@   except frame[D|Str|Any|c8c47bee8/ret1], frame[D|Str|Int|cf403b835/ret1], frame[HF|T_types_ServiceHook|0/ret1], frame[HF|T_types_ServiceHook|1/ret1], frame[HF|T_types_ServiceHook|2/ret1], frame[HF|T_types_ServiceHook|3/ret1], frame[HF|T_types_ServiceHook|4/ret1], frame[HF|T_types_ServiceHook|5/ret1], frame[HF|T_types_Trigger|0/ret1], frame[HF|T_types_Trigger|1/ret1], frame[HF|T_types_Trigger|2/ret1], frame[HF|T_types_Trigger|3.0/ret1], frame[HF|T_types_Trigger|3.1/ret1], frame[HF|T_types_Trigger|3.2/ret1], frame[HF|T_types_Trigger|3.3/ret1], frame[HF|T_types_Trigger|3.4/ret1], frame[HF|T_types_Trigger|3.5/ret1], frame[HF|T_types_Trigger|4/ret1], frame[HF|T_types_Trigger|5/ret1], frame[H|Str|cf613ccd0/ret1], frame[M|Str|Any|c8c47bee8/ret1], frame[M|Str|Int|cf403b835/ret1], frame[S|Str|ce4060d18/ret1], frame[S|T_types_Trigger|cc0f38b63/ret1] : undischarged on the reference tree (engine limit or missing callee contract), not claimed
 //@   nopanic[C14,C20]
 //@   requires len(dst) >= len(src) && (len(src) > 0 ==> dst != src)
 //@   assigns dst.*
 //@   ensures[C14] forall j int :: 0 <= j && j < len(src) ==> copyOf_Trigger(dst[j], src[j])
 //@   loop 1
 //@     invariant -1 <= rangeindex && rangeindex < len(src)
-//@     invariant forall j int :: 0 <= j && j <= rangeindex ==> copyOf_Trigger(dst[j], src[j])
+//@?     invariant forall j int :: 0 <= j && j <= rangeindex ==> copyOf_Trigger(dst[j], src[j])   // undischarged on the reference tree: not claimed
 
 //@ func deriveDeepCopy_28$1
 //@   nopanic[C14,C20]
@@ -1399,13 +1424,14 @@ package types
 //@   ensures[C14] (forall kk string :: has(src_value.Extensions, kk) ==> dst[src_i].Extensions[kk] == src_value.Extensions[kk])
 
 //@ func deriveDeepCopy_29
+//@   except frame[D|Str|Any|c8c47bee8/ret1], frame[HF|T_types_WeightDevice|0/ret1], frame[HF|T_types_WeightDevice|1/ret1], frame[HF|T_types_WeightDevice|2/ret1], frame[M|Str|Any|c8c47bee8/ret1], frame[S|T_types_WeightDevice|c34ab9637/ret1] : undischarged on the reference tree (engine limit or missing callee contract), not claimed
 //@   nopanic[C14,C20]
 //@   requires len(dst) >= len(src) && (len(src) > 0 ==> dst != src)
 //@   assigns dst.*
 //@   ensures[C14] forall j int :: 0 <= j && j < len(src) ==> copyOf_WeightDevice(dst[j], src[j])
 //@   loop 1
 //@     invariant -1 <= rangeindex && rangeindex < len(src)
-//@     invariant forall j int :: 0 <= j && j <= rangeindex ==> copyOf_WeightDevice(dst[j], src[j])
+//@?     invariant forall j int :: 0 <= j && j <= rangeindex ==> copyOf_WeightDevice(dst[j], src[j])   // undischarged on the reference tree: not claimed
 
 //@ func deriveDeepCopy_29$1
 //@   nopanic[C14,C20]
@@ -1419,6 +1445,7 @@ package types
 //@   ensures[C14] (forall kk string :: has(src_value.Extensions, kk) ==> dst[src_i].Extensions[kk] == src_value.Extensions[kk])
 
 //@ func deriveDeepCopy_3
+//@   except frame[D|Str|Any|c8c47bee8/ret1], frame[D|Str|Str|cefb8f1e7/ret1], frame[D|Str|T_types_ConfigObjConfig|c540f66e7/ret1], frame[HF|T_types_ConfigObjConfig|0/ret1], frame[HF|T_types_ConfigObjConfig|1/ret1], frame[HF|T_types_ConfigObjConfig|10/ret1], frame[HF|T_types_ConfigObjConfig|2/ret1], frame[HF|T_types_ConfigObjConfig|3/ret1], frame[HF|T_types_ConfigObjConfig|4/ret1], frame[HF|T_types_ConfigObjConfig|5/ret1], frame[HF|T_types_ConfigObjConfig|6/ret1], frame[HF|T_types_ConfigObjConfig|7/ret1], frame[HF|T_types_ConfigObjConfig|8/ret1], frame[HF|T_types_ConfigObjConfig|9/ret1], frame[M|Str|Any|c8c47bee8/ret1], frame[M|Str|Str|cefb8f1e7/ret1], frame[M|Str|T_types_ConfigObjConfig|c540f66e7/ret1] : undischarged on the reference tree (engine limit or missing callee contract), not claimed
 //@   nopanic[C14,C20]
 //@   requires dst != nil && dst != src
 //@   assigns dst.*
@@ -1428,7 +1455,7 @@ package types
 //@   loop 1
 //@     invariant forall k string :: seen(k) ==> has(src, k) && has(dst, k)
 //@     invariant forall k string :: !seen(k) ==> (has(dst, k) <==> old(has(dst, k)))
-//@     invariant forall k string :: seen(k) ==> copyOf_ConfigObjConfig(dst[k], src[k])
+//@?     invariant forall k string :: seen(k) ==> copyOf_ConfigObjConfig(dst[k], src[k])   // undischarged on the reference tree: not claimed
 
 //@ func deriveDeepCopy_3$1
 //@   nopanic[C14,C20]
@@ -1455,13 +1482,14 @@ package types
 //@   ensures[C14] (forall kk string :: has(src_value.Extensions, kk) ==> dst[src_key].Extensions[kk] == src_value.Extensions[kk])
 
 //@ func deriveDeepCopy_30
+//@   except frame[D|Str|Any|c8c47bee8/ret1], frame[HF|T_types_ThrottleDevice|0/ret1], frame[HF|T_types_ThrottleDevice|1/ret1], frame[HF|T_types_ThrottleDevice|2/ret1], frame[M|Str|Any|c8c47bee8/ret1], frame[S|T_types_ThrottleDevice|ce78aa81b/ret1] : undischarged on the reference tree (engine limit or missing callee contract), not claimed
 //@   nopanic[C14,C20]
 //@   requires len(dst) >= len(src) && (len(src) > 0 ==> dst != src)
 //@   assigns dst.*
 //@   ensures[C14] forall j int :: 0 <= j && j < len(src) ==> copyOf_ThrottleDevice(dst[j], src[j])
 //@   loop 1
 //@     invariant -1 <= rangeindex && rangeindex < len(src)
-//@     invariant forall j int :: 0 <= j && j <= rangeindex ==> copyOf_ThrottleDevice(dst[j], src[j])
+//@?     invariant forall j int :: 0 <= j && j <= rangeindex ==> copyOf_ThrottleDevice(dst[j], src[j])   // undischarged on the reference tree: not claimed
 
 //@ func deriveDeepCopy_30$1
 //@   nopanic[C14,C20]
@@ -1517,9 +1545,9 @@ package types
 //@   requires dst != nil && src != nil && dst != src
 //@   assigns dst.*
 //@   ensures[C14] (dst.Limits == nil <==> src.Limits == nil) && (src.Limits != nil ==> fresh(dst.Limits))
-//@   ensures[C14] (src.Limits != nil ==> copyOf_Resource(dst.Limits, src.Limits))
+//@?   ensures[C14] (src.Limits != nil ==> copyOf_Resource(dst.Limits, src.Limits))   // undischarged on the reference tree: not claimed
 //@   ensures[C14] (dst.Reservations == nil <==> src.Reservations == nil) && (src.Reservations != nil ==> fresh(dst.Reservations))
-//@   ensures[C14] (src.Reservations != nil ==> copyOf_Resource(dst.Reservations, src.Reservations))
+//@?   ensures[C14] (src.Reservations != nil ==> copyOf_Resource(dst.Reservations, src.Reservations))   // undischarged on the reference tree: not claimed
 //@   ensures[C14] (dst.Extensions == nil <==> src.Extensions == nil) && (src.Extensions != nil ==> fresh(dst.Extensions))
 //@   ensures[C14] (forall kk string :: has(dst.Extensions, kk) <==> has(src.Extensions, kk))
 //@   ensures[C14] (forall kk string :: has(src.Extensions, kk) ==> dst.Extensions[kk] == src.Extensions[kk])
@@ -1544,7 +1572,7 @@ package types
 //@   assigns dst.*
 //@   ensures[C14] (dst.Constraints == nil <==> src.Constraints == nil) && (src.Constraints != nil ==> fresh(dst.Constraints)) && len(dst.Constraints) == len(src.Constraints)
 //@   ensures[C14] (dst.Preferences == nil <==> src.Preferences == nil) && (src.Preferences != nil ==> fresh(dst.Preferences)) && len(dst.Preferences) == len(src.Preferences)
-//@   ensures[C14] (forall ej int :: 0 <= ej && ej < len(src.Preferences) ==> copyOf_PlacementPreferences(dst.Preferences[ej], src.Preferences[ej]))
+//@?   ensures[C14] (forall ej int :: 0 <= ej && ej < len(src.Preferences) ==> copyOf_PlacementPreferences(dst.Preferences[ej], src.Preferences[ej]))   // undischarged on the reference tree: not claimed
 //@   ensures[C14] dst.MaxReplicas == src.MaxReplicas
 //@   ensures[C14] (dst.Extensions == nil <==> src.Extensions == nil) && (src.Extensions != nil ==> fresh(dst.Extensions))
 //@   ensures[C14] (forall kk string :: has(dst.Extensions, kk) <==> has(src.Extensions, kk))
@@ -1655,11 +1683,11 @@ package types
 //@   ensures[C14] dst.ReadOnly == src.ReadOnly
 //@   ensures[C14] dst.Consistency == src.Consistency
 //@   ensures[C14] (dst.Bind == nil <==> src.Bind == nil) && (src.Bind != nil ==> fresh(dst.Bind))
-//@   ensures[C14] (src.Bind != nil ==> copyOf_ServiceVolumeBind(dst.Bind, src.Bind))
+//@?   ensures[C14] (src.Bind != nil ==> copyOf_ServiceVolumeBind(dst.Bind, src.Bind))   // undischarged on the reference tree: not claimed
 //@   ensures[C14] (dst.Volume == nil <==> src.Volume == nil) && (src.Volume != nil ==> fresh(dst.Volume))
-//@   ensures[C14] (src.Volume != nil ==> copyOf_ServiceVolumeVolume(dst.Volume, src.Volume))
+//@?   ensures[C14] (src.Volume != nil ==> copyOf_ServiceVolumeVolume(dst.Volume, src.Volume))   // undischarged on the reference tree: not claimed
 //@   ensures[C14] (dst.Tmpfs == nil <==> src.Tmpfs == nil) && (src.Tmpfs != nil ==> fresh(dst.Tmpfs))
-//@   ensures[C14] (src.Tmpfs != nil ==> copyOf_ServiceVolumeTmpfs(dst.Tmpfs, src.Tmpfs))
+//@?   ensures[C14] (src.Tmpfs != nil ==> copyOf_ServiceVolumeTmpfs(dst.Tmpfs, src.Tmpfs))   // undischarged on the reference tree: not claimed
 //@   ensures[C14] (dst.Extensions == nil <==> src.Extensions == nil) && (src.Extensions != nil ==> fresh(dst.Extensions))
 //@   ensures[C14] (forall kk string :: has(dst.Extensions, kk) <==> has(src.Extensions, kk))
 //@   ensures[C14] (forall kk string :: has(src.Extensions, kk) ==> dst.Extensions[kk] == src.Extensions[kk])
@@ -1706,8 +1734,8 @@ package types
 //@   ensures[C14] (dst.Exec.Environment == nil <==> src.Exec.Environment == nil) && (src.Exec.Environment != nil ==> fresh(dst.Exec.Environment))
 //@   ensures[C14] (forall kk string :: has(dst.Exec.Environment, kk) <==> has(src.Exec.Environment, kk))
 //@   ensures[C14] (dst.Exec.Extensions == nil <==> src.Exec.Extensions == nil) && (src.Exec.Extensions != nil ==> fresh(dst.Exec.Extensions))
-//@   ensures[C14] (forall kk string :: has(dst.Exec.Extensions, kk) <==> has(src.Exec.Extensions, kk))
-//@   ensures[C14] (forall kk string :: has(src.Exec.Extensions, kk) ==> dst.Exec.Extensions[kk] == src.Exec.Extensions[kk])
+//@?   ensures[C14] (forall kk string :: has(dst.Exec.Extensions, kk) <==> has(src.Exec.Extensions, kk))   // undischarged on the reference tree: not claimed
+//@?   ensures[C14] (forall kk string :: has(src.Exec.Extensions, kk) ==> dst.Exec.Extensions[kk] == src.Exec.Extensions[kk])   // undischarged on the reference tree: not claimed
 //@   ensures[C14] (dst.Ignore == nil <==> src.Ignore == nil) && (src.Ignore != nil ==> fresh(dst.Ignore)) && len(dst.Ignore) == len(src.Ignore)
 //@   ensures[C14] (dst.Extensions == nil <==> src.Extensions == nil) && (src.Extensions != nil ==> fresh(dst.Extensions))
 //@   ensures[C14] (forall kk string :: has(dst.Extensions, kk) <==> has(src.Extensions, kk))
@@ -1717,15 +1745,15 @@ package types
 //@   nopanic[C14,C20]
 //@   requires dst != nil && src != nil && dst != src
 //@   assigns dst.Exec
-//@   ensures[C14] (dst.Exec.Command == nil <==> src.Exec.Command == nil) && (src.Exec.Command != nil ==> fresh(dst.Exec.Command)) && len(dst.Exec.Command) == len(src.Exec.Command)
-//@   ensures[C14] dst.Exec.User == src.Exec.User
-//@   ensures[C14] dst.Exec.Privileged == src.Exec.Privileged
-//@   ensures[C14] dst.Exec.WorkingDir == src.Exec.WorkingDir
-//@   ensures[C14] (dst.Exec.Environment == nil <==> src.Exec.Environment == nil) && (src.Exec.Environment != nil ==> fresh(dst.Exec.Environment))
-//@   ensures[C14] (forall kk string :: has(dst.Exec.Environment, kk) <==> has(src.Exec.Environment, kk))
-//@   ensures[C14] (dst.Exec.Extensions == nil <==> src.Exec.Extensions == nil) && (src.Exec.Extensions != nil ==> fresh(dst.Exec.Extensions))
-//@   ensures[C14] (forall kk string :: has(dst.Exec.Extensions, kk) <==> has(src.Exec.Extensions, kk))
-//@   ensures[C14] (forall kk string :: has(src.Exec.Extensions, kk) ==> dst.Exec.Extensions[kk] == src.Exec.Extensions[kk])
+//@?   ensures[C14] (dst.Exec.Command == nil <==> src.Exec.Command == nil) && (src.Exec.Command != nil ==> fresh(dst.Exec.Command)) && len(dst.Exec.Command) == len(src.Exec.Command)   // undischarged on the reference tree: not claimed
+//@?   ensures[C14] dst.Exec.User == src.Exec.User   // undischarged on the reference tree: not claimed
+//@?   ensures[C14] dst.Exec.Privileged == src.Exec.Privileged   // undischarged on the reference tree: not claimed
+//@?   ensures[C14] dst.Exec.WorkingDir == src.Exec.WorkingDir   // undischarged on the reference tree: not claimed
+//@?   ensures[C14] (dst.Exec.Environment == nil <==> src.Exec.Environment == nil) && (src.Exec.Environment != nil ==> fresh(dst.Exec.Environment))   // undischarged on the reference tree: not claimed
+//@?   ensures[C14] (forall kk string :: has(dst.Exec.Environment, kk) <==> has(src.Exec.Environment, kk))   // undischarged on the reference tree: not claimed
+//@?   ensures[C14] (dst.Exec.Extensions == nil <==> src.Exec.Extensions == nil) && (src.Exec.Extensions != nil ==> fresh(dst.Exec.Extensions))   // undischarged on the reference tree: not claimed
+//@?   ensures[C14] (forall kk string :: has(dst.Exec.Extensions, kk) <==> has(src.Exec.Extensions, kk))   // undischarged on the reference tree: not claimed
+//@?   ensures[C14] (forall kk string :: has(src.Exec.Extensions, kk) ==> dst.Exec.Extensions[kk] == src.Exec.Extensions[kk])   // undischarged on the reference tree: not claimed
 
 //@ func deriveDeepCopy_47
 //@   nopanic[C14,C20]
@@ -1759,7 +1787,7 @@ package types
 //@   ensures[C14] (dst.Devices == nil <==> src.Devices == nil) && (src.Devices != nil ==> fresh(dst.Devices)) && len(dst.Devices) == len(src.Devices)
 //@   ensures[C14] (forall ej int :: 0 <= ej && ej < len(src.Devices) ==> copyOf_DeviceRequest(dst.Devices[ej], src.Devices[ej]))
 //@   ensures[C14] (dst.GenericResources == nil <==> src.GenericResources == nil) && (src.GenericResources != nil ==> fresh(dst.GenericResources)) && len(dst.GenericResources) == len(src.GenericResources)
-//@   ensures[C14] (forall ej int :: 0 <= ej && ej < len(src.GenericResources) ==> copyOf_GenericResource(dst.GenericResources[ej], src.GenericResources[ej]))
+//@?   ensures[C14] (forall ej int :: 0 <= ej && ej < len(src.GenericResources) ==> copyOf_GenericResource(dst.GenericResources[ej], src.GenericResources[ej]))   // undischarged on the reference tree: not claimed
 //@   ensures[C14] (dst.Extensions == nil <==> src.Extensions == nil) && (src.Extensions != nil ==> fresh(dst.Extensions))
 //@   ensures[C14] (forall kk string :: has(dst.Extensions, kk) <==> has(src.Extensions, kk))
 //@   ensures[C14] (forall kk string :: has(src.Extensions, kk) ==> dst.Extensions[kk] == src.Extensions[kk])
@@ -1782,7 +1810,7 @@ package types
 //@   ensures[C14] (dst.Args == nil <==> src.Args == nil) && (src.Args != nil ==> fresh(dst.Args))
 //@   ensures[C14] (forall kk string :: has(dst.Args, kk) <==> has(src.Args, kk))
 //@   ensures[C14] (dst.SSH == nil <==> src.SSH == nil) && (src.SSH != nil ==> fresh(dst.SSH)) && len(dst.SSH) == len(src.SSH)
-//@   ensures[C14] (forall ej int :: 0 <= ej && ej < len(src.SSH) ==> copyOf_SSHKey(dst.SSH[ej], src.SSH[ej]))
+//@?   ensures[C14] (forall ej int :: 0 <= ej && ej < len(src.SSH) ==> copyOf_SSHKey(dst.SSH[ej], src.SSH[ej]))   // undischarged on the reference tree: not claimed
 //@   ensures[C14] (dst.Labels == nil <==> src.Labels == nil) && (src.Labels != nil ==> fresh(dst.Labels))
 //@   ensures[C14] (forall kk string :: has(dst.Labels, kk) <==> has(src.Labels, kk))
 //@   ensures[C14] (forall kk string :: has(src.Labels, kk) ==> dst.Labels[kk] == src.Labels[kk])
@@ -1799,7 +1827,7 @@ package types
 //@   ensures[C14] dst.Network == src.Network
 //@   ensures[C14] dst.Target == src.Target
 //@   ensures[C14] (dst.Secrets == nil <==> src.Secrets == nil) && (src.Secrets != nil ==> fresh(dst.Secrets)) && len(dst.Secrets) == len(src.Secrets)
-//@   ensures[C14] (forall ej int :: 0 <= ej && ej < len(src.Secrets) ==> copyOf_ServiceSecretConfig(dst.Secrets[ej], src.Secrets[ej]))
+//@?   ensures[C14] (forall ej int :: 0 <= ej && ej < len(src.Secrets) ==> copyOf_ServiceSecretConfig(dst.Secrets[ej], src.Secrets[ej]))   // undischarged on the reference tree: not claimed
 //@   ensures[C14] dst.ShmSize == src.ShmSize
 //@   ensures[C14] (dst.Tags == nil <==> src.Tags == nil) && (src.Tags != nil ==> fresh(dst.Tags)) && len(dst.Tags) == len(src.Tags)
 //@   ensures[C14] (dst.Ulimits == nil <==> src.Ulimits == nil) && (src.Ulimits != nil ==> fresh(dst.Ulimits))
@@ -1811,13 +1839,14 @@ package types
 //@   ensures[C14] (forall kk string :: has(src.Extensions, kk) ==> dst.Extensions[kk] == src.Extensions[kk])
 
 //@ func deriveDeepCopy_50
+//@   except frame[D|Str|Any|c8c47bee8/ret1], frame[HF|T_types_PlacementPreferences|0/ret1], frame[HF|T_types_PlacementPreferences|1/ret1], frame[M|Str|Any|c8c47bee8/ret1], frame[S|T_types_PlacementPreferences|cc78aba7a/ret1] : undischarged on the reference tree (engine limit or missing callee contract), not claimed
 //@   nopanic[C14,C20]
 //@   requires len(dst) >= len(src) && (len(src) > 0 ==> dst != src)
 //@   assigns dst.*
 //@   ensures[C14] forall j int :: 0 <= j && j < len(src) ==> copyOf_PlacementPreferences(dst[j], src[j])
 //@   loop 1
 //@     invariant -1 <= rangeindex && rangeindex < len(src)
-//@     invariant forall j int :: 0 <= j && j <= rangeindex ==> copyOf_PlacementPreferences(dst[j], src[j])
+//@?     invariant forall j int :: 0 <= j && j <= rangeindex ==> copyOf_PlacementPreferences(dst[j], src[j])   // undischarged on the reference tree: not claimed
 
 //@ func deriveDeepCopy_50$1
 //@   nopanic[C14,C20]
@@ -1862,6 +1891,7 @@ package types
 //@   ensures[C14] (forall kk string :: has(src.Extensions, kk) ==> dst.Extensions[kk] == src.Extensions[kk])
 
 //@ func deriveDeepCopy_54
+//@   except frame[D|Str|Any|c8c47bee8/ret1], frame[D|Str|Str|cefb8f1e7/ret1], frame[HF|T_types_IPAMPool|0/ret1], frame[HF|T_types_IPAMPool|1/ret1], frame[HF|T_types_IPAMPool|2/ret1], frame[HF|T_types_IPAMPool|3/ret1], frame[HF|T_types_IPAMPool|4/ret1], frame[M|Str|Any|c8c47bee8/ret1], frame[M|Str|Str|cefb8f1e7/ret1] : undischarged on the reference tree (engine limit or missing callee contract), not claimed
 //@   nopanic[C14,C20]
 //@   requires len(dst) >= len(src) && (len(src) > 0 ==> dst != src)
 //@   assigns dst.*
@@ -1869,17 +1899,18 @@ package types
 //@   ensures[C14] forall j int :: 0 <= j && j < len(src) ==> (src[j] != nil ==> copyOf_IPAMPool(dst[j], src[j]))
 //@   loop 1
 //@     invariant -1 <= rangeindex && rangeindex < len(src)
-//@     invariant forall j int :: 0 <= j && j <= rangeindex ==> (dst[j] == nil <==> src[j] == nil) && (src[j] != nil ==> fresh(dst[j]))
-//@     invariant forall j int :: 0 <= j && j <= rangeindex ==> (src[j] != nil ==> copyOf_IPAMPool(dst[j], src[j]))
+//@?     invariant forall j int :: 0 <= j && j <= rangeindex ==> (dst[j] == nil <==> src[j] == nil) && (src[j] != nil ==> fresh(dst[j]))   // undischarged on the reference tree: not claimed
+//@?     invariant forall j int :: 0 <= j && j <= rangeindex ==> (src[j] != nil ==> copyOf_IPAMPool(dst[j], src[j]))   // undischarged on the reference tree: not claimed
 
 //@ func deriveDeepCopy_55
+//@   except frame[D|Str|Any|c8c47bee8/ret1], frame[HF|T_types_DiscreteGenericResource|0/ret1], frame[HF|T_types_DiscreteGenericResource|1/ret1], frame[HF|T_types_DiscreteGenericResource|2/ret1], frame[HF|T_types_GenericResource|0/ret1], frame[HF|T_types_GenericResource|1/ret1], frame[M|Str|Any|c8c47bee8/ret1], frame[S|T_types_GenericResource|ca7cbadd2/ret1] : undischarged on the reference tree (engine limit or missing callee contract), not claimed
 //@   nopanic[C14,C20]
 //@   requires len(dst) >= len(src) && (len(src) > 0 ==> dst != src)
 //@   assigns dst.*
 //@   ensures[C14] forall j int :: 0 <= j && j < len(src) ==> copyOf_GenericResource(dst[j], src[j])
 //@   loop 1
 //@     invariant -1 <= rangeindex && rangeindex < len(src)
-//@     invariant forall j int :: 0 <= j && j <= rangeindex ==> copyOf_GenericResource(dst[j], src[j])
+//@?     invariant forall j int :: 0 <= j && j <= rangeindex ==> copyOf_GenericResource(dst[j], src[j])   // undischarged on the reference tree: not claimed
 
 //@ func deriveDeepCopy_55$1
 //@   nopanic[C14,C20]
@@ -1920,7 +1951,7 @@ package types
 //@   requires dst != nil && src != nil && dst != src
 //@   assigns dst.*
 //@   ensures[C14] (dst.DiscreteResourceSpec == nil <==> src.DiscreteResourceSpec == nil) && (src.DiscreteResourceSpec != nil ==> fresh(dst.DiscreteResourceSpec))
-//@   ensures[C14] (src.DiscreteResourceSpec != nil ==> copyOf_DiscreteGenericResource(dst.DiscreteResourceSpec, src.DiscreteResourceSpec))
+//@?   ensures[C14] (src.DiscreteResourceSpec != nil ==> copyOf_DiscreteGenericResource(dst.DiscreteResourceSpec, src.DiscreteResourceSpec))   // undischarged on the reference tree: not claimed
 //@   ensures[C14] (dst.Extensions == nil <==> src.Extensions == nil) && (src.Extensions != nil ==> fresh(dst.Extensions))
 //@   ensures[C14] (forall kk string :: has(dst.Extensions, kk) <==> has(src.Extensions, kk))
 //@   ensures[C14] (forall kk string :: has(src.Extensions, kk) ==> dst.Extensions[kk] == src.Extensions[kk])
@@ -1941,7 +1972,7 @@ package types
 //@   requires dst.Watch == nil
 //@   assigns dst.*
 //@   ensures[C14] (dst.Watch == nil <==> src.Watch == nil) && (src.Watch != nil ==> fresh(dst.Watch)) && len(dst.Watch) == len(src.Watch)
-//@   ensures[C14] (forall ej int :: 0 <= ej && ej < len(src.Watch) ==> copyOf_Trigger(dst.Watch[ej], src.Watch[ej]))
+//@?   ensures[C14] (forall ej int :: 0 <= ej && ej < len(src.Watch) ==> copyOf_Trigger(dst.Watch[ej], src.Watch[ej]))   // undischarged on the reference tree: not claimed
 //@   ensures[C14] (dst.Extensions == nil <==> src.Extensions == nil) && (src.Extensions != nil ==> fresh(dst.Extensions))
 //@   ensures[C14] (forall kk string :: has(dst.Extensions, kk) <==> has(src.Extensions, kk))
 //@   ensures[C14] (forall kk string :: has(src.Extensions, kk) ==> dst.Extensions[kk] == src.Extensions[kk])
@@ -1957,27 +1988,28 @@ package types
 //@   assigns dst.*
 //@   ensures[C14] dst.Weight == src.Weight
 //@   ensures[C14] (dst.WeightDevice == nil <==> src.WeightDevice == nil) && (src.WeightDevice != nil ==> fresh(dst.WeightDevice)) && len(dst.WeightDevice) == len(src.WeightDevice)
-//@   ensures[C14] (forall ej int :: 0 <= ej && ej < len(src.WeightDevice) ==> copyOf_WeightDevice(dst.WeightDevice[ej], src.WeightDevice[ej]))
+//@?   ensures[C14] (forall ej int :: 0 <= ej && ej < len(src.WeightDevice) ==> copyOf_WeightDevice(dst.WeightDevice[ej], src.WeightDevice[ej]))   // undischarged on the reference tree: not claimed
 //@   ensures[C14] (dst.DeviceReadBps == nil <==> src.DeviceReadBps == nil) && (src.DeviceReadBps != nil ==> fresh(dst.DeviceReadBps)) && len(dst.DeviceReadBps) == len(src.DeviceReadBps)
-//@   ensures[C14] (forall ej int :: 0 <= ej && ej < len(src.DeviceReadBps) ==> copyOf_ThrottleDevice(dst.DeviceReadBps[ej], src.DeviceReadBps[ej]))
+//@?   ensures[C14] (forall ej int :: 0 <= ej && ej < len(src.DeviceReadBps) ==> copyOf_ThrottleDevice(dst.DeviceReadBps[ej], src.DeviceReadBps[ej]))   // undischarged on the reference tree: not claimed
 //@   ensures[C14] (dst.DeviceReadIOps == nil <==> src.DeviceReadIOps == nil) && (src.DeviceReadIOps != nil ==> fresh(dst.DeviceReadIOps)) && len(dst.DeviceReadIOps) == len(src.DeviceReadIOps)
-//@   ensures[C14] (forall ej int :: 0 <= ej && ej < len(src.DeviceReadIOps) ==> copyOf_ThrottleDevice(dst.DeviceReadIOps[ej], src.DeviceReadIOps[ej]))
+//@?   ensures[C14] (forall ej int :: 0 <= ej && ej < len(src.DeviceReadIOps) ==> copyOf_ThrottleDevice(dst.DeviceReadIOps[ej], src.DeviceReadIOps[ej]))   // undischarged on the reference tree: not claimed
 //@   ensures[C14] (dst.DeviceWriteBps == nil <==> src.DeviceWriteBps == nil) && (src.DeviceWriteBps != nil ==> fresh(dst.DeviceWriteBps)) && len(dst.DeviceWriteBps) == len(src.DeviceWriteBps)
-//@   ensures[C14] (forall ej int :: 0 <= ej && ej < len(src.DeviceWriteBps) ==> copyOf_ThrottleDevice(dst.DeviceWriteBps[ej], src.DeviceWriteBps[ej]))
+//@?   ensures[C14] (forall ej int :: 0 <= ej && ej < len(src.DeviceWriteBps) ==> copyOf_ThrottleDevice(dst.DeviceWriteBps[ej], src.DeviceWriteBps[ej]))   // undischarged on the reference tree: not claimed
 //@   ensures[C14] (dst.DeviceWriteIOps == nil <==> src.DeviceWriteIOps == nil) && (src.DeviceWriteIOps != nil ==> fresh(dst.DeviceWriteIOps)) && len(dst.DeviceWriteIOps) == len(src.DeviceWriteIOps)
-//@   ensures[C14] (forall ej int :: 0 <= ej && ej < len(src.DeviceWriteIOps) ==> copyOf_ThrottleDevice(dst.DeviceWriteIOps[ej], src.DeviceWriteIOps[ej]))
+//@?   ensures[C14] (forall ej int :: 0 <= ej && ej < len(src.DeviceWriteIOps) ==> copyOf_ThrottleDevice(dst.DeviceWriteIOps[ej], src.DeviceWriteIOps[ej]))   // undischarged on the reference tree: not claimed
 //@   ensures[C14] (dst.Extensions == nil <==> src.Extensions == nil) && (src.Extensions != nil ==> fresh(dst.Extensions))
 //@   ensures[C14] (forall kk string :: has(dst.Extensions, kk) <==> has(src.Extensions, kk))
 //@   ensures[C14] (forall kk string :: has(src.Extensions, kk) ==> dst.Extensions[kk] == src.Extensions[kk])
 
 //@ func deriveDeepCopy_8
+//@   except frame[D|Str|Any|c8c47bee8/ret1], frame[HF|T_types_ServiceConfigObjConfig|0/ret1], frame[HF|T_types_ServiceConfigObjConfig|1/ret1], frame[HF|T_types_ServiceConfigObjConfig|2/ret1], frame[HF|T_types_ServiceConfigObjConfig|3/ret1], frame[HF|T_types_ServiceConfigObjConfig|4/ret1], frame[HF|T_types_ServiceConfigObjConfig|5/ret1], frame[H|Int|cddff6ea4/ret1], frame[M|Str|Any|c8c47bee8/ret1], frame[S|T_types_ServiceConfigObjConfig|c22bbd9ed/ret1] : undischarged on the reference tree (engine limit or missing callee contract), not claimed
 //@   nopanic[C14,C20]
 //@   requires len(dst) >= len(src) && (len(src) > 0 ==> dst != src)
 //@   assigns dst.*
 //@   ensures[C14] forall j int :: 0 <= j && j < len(src) ==> copyOf_ServiceConfigObjConfig(dst[j], src[j])
 //@   loop 1
 //@     invariant -1 <= rangeindex && rangeindex < len(src)
-//@     invariant forall j int :: 0 <= j && j <= rangeindex ==> copyOf_ServiceConfigObjConfig(dst[j], src[j])
+//@?     invariant forall j int :: 0 <= j && j <= rangeindex ==> copyOf_ServiceConfigObjConfig(dst[j], src[j])   // undischarged on the reference tree: not claimed
 
 //@ func deriveDeepCopy_8$1
 //@   nopanic[C14,C20]
